@@ -1,4 +1,59 @@
-(* Journey2.v -- T2 for C03 (journey continuity) on the STAGE-2 engine model (Engine2.v).  HEADER TO BE COMPLETED. *)
+(* Journey2.v -- T2 for C03 (journey continuity) on the STAGE-2 engine model (Engine2.v): routers of all kinds, reneging and
+   jockeying, blocking, server schedules, slotted services, class change, priority pre-emption.
+
+   The HISTORY h is the concatenation of the logs of all events so far; `an i` is the node where customer i arrived from
+   outside (a ghost read off the run: the customers created by an arrival event of state s arrive at a_next_node (arr s)).
+   Record types: 0 service, 1 interruption, 2 renege, 3 baulk, 4 rejection.  A record CLOSES its visit when it is a service
+   record, a renege record, or an interruption record that names a destination (rerouting); an interruption record without
+   destination is a CONTINUATION record: written in the middle of a visit that goes on at the same node (closing / cont / link).
+
+   Main result, for every configuration IN SCOPE (scope2, executable, below), every state satisfying the invariant Jrn2, every
+   oracle of draws (no hypothesis on the draws) and any number of events (event_step_jrn2, run_hist_jrn2, run_many_jrn2,
+   engine_journey2; partial correctness: nothing is said about runs that return Err / OutOfFuel), in the words of C03 (Jrn2_means):
+     (0) the first record of a customer is at the node where it arrived;
+     (1) of two consecutive records r1 r2 of a customer, r2 is not a baulk / rejection record and either r1 closes its visit,
+         names the node of r2 as destination and ends at the instant the visit of r2 began (r_exit r1 = r_arr r2), or r1 is a
+         continuation record and r2 belongs to the same visit: same node, same arrival date;
+     (2) a baulk / rejection record is its customer's only record;
+     (3) a customer in node k is recorded there (i_node), its own record counter is the number of its records, and its last
+         record either closed the previous visit naming k and ending at the customer's arrival date i_arr, or is a
+         continuation record of the present visit (node k, arrival date i_arr), or it has no record and arrived at k;
+         moreover its last visit-closing record names k and ends at i_arr and all later records are of the present visit,
+         and if it has no visit-closing record at all then k is where it arrived (one closing record per completed visit);
+     (4) a customer is at the exit exactly when its last record names destination -1 or is a baulk / rejection record;
+     (5) records only name customers that exist.
+
+   Scope (scope2 cf = true), every clause executable on the configuration:
+     - no node pre-empts by REROUTING (nc_preempt <> 4); no pre-emptive schedule (sc_pre = 0); no pre-emptive capacitated slot;
+       a slotted node has neither reneging nor priority pre-emption;
+     - if some node has priority pre-emption (resume / restart / resample), then no node has a capacity (nobody is ever
+       blocked) and there are no class-change times (no class change while waiting).
+   scopeA (no pre-emption at all: all routers, reneging + jockeying, blocking, non-pre-emptive schedules, slots, class change
+   after service and while waiting) is the sub-scope the stage-1 theorem extends to; scopeA_scope2.
+   Why the restriction: journey_refuted_preempt_blocked -- outside the scope the statement is FALSE of the model (region F-02a:
+   priority pre-emption of a BLOCKED customer; the consequence for the records is new): a closed nine-event run from an empty
+   three-node system that satisfies the invariant, after which customer 2 has a service record at node 1 naming node 3 directly
+   followed by a record at node 2 (it sat in the blocked queues of node 2 and node 3 at once; the clock went back from 8 to 7
+   on the way); nothing crashed.  NOT covered and not refuted (what is missing for the full statement): pre-emption by
+   rerouting (also interrupt_service with option reroute); pre-emptive schedules / capacitated slots WITHOUT blocking (they need
+   an invariant for the list of interrupted customers); priority pre-emption together with class change while waiting;
+   reneging or priority pre-emption at a slotted node.  event_step_jrn2_partial / run_many_jrn2_partial name this.
+
+   The invariant Jrn2 cf an s h (executable: jrn2_b, jrn2_b_sound) = Conserve2.WFx2 (conservation) + JH (the journey
+   invariant proper) + Lq (every entry (from, y) of the blocked queue of node d is a customer flagged blocked whose recorded
+   destination is d, no customer twice in one blocked queue: the stage-2 analogue of Blocking.Who) + NoInt (nobody is
+   interrupted) + SrvInv (a server of a non-slotted node that holds a customer is that customer's server, the customer is of
+   that node, and while the server has an end-of-service date the customer is not blocked; server identities are distinct; a
+   blocked customer without server is at an infinite-server or slotted node; with priority pre-emption nobody is blocked)
+   + PickOK (the customers a node names for its next end of service / renege are not blocked; a class change while waiting
+   is only scheduled when there are class-change times).  SrvInv and PickOK are what makes the customer finish_service /
+   renege picks free of stale blocked-queue entries, and the victim of a pre-emption a customer of the pre-empting node.
+
+   Method: one frame logic generic in what is looked at (keepV fn fi fg K m), instantiated for the journey view (J), the
+   server view (S) and both (B), one line per engine function; the functions that move customers, write records or touch
+   servers are walked through by hand (St = journey state + server invariant), the recursion release / release_blocked_
+   individual / accept / preempt by induction on the fuel (core_St).
+   Examples: jx_* (reneging + jockeying + blocking, scopeA), jp_* (priority pre-emption: the network of Conserve2.v). *)
 From Coq Require Import ZArith List Bool Lia Permutation.
 From RecordUpdate Require Import RecordUpdate.
 From CiwV Require Import Sx Prelude Routing Sched.
@@ -400,18 +455,40 @@ Ltac kb_lem :=
         | apply kb_sort_interrupted_individuals | apply kb_update_next_event_date | apply kb_update_all | apply kb_find_next_event_date
         | apply kb_sys_population | apply kb_route_of ].
 
-(* ---------- the scope: no priority pre-emption, no pre-emptive schedule, no pre-emptive capacitated slot;
-   no reneging at a slotted node ---------- *)
+(* ---------- the scope ----------
+   every node: no pre-emption by rerouting; no pre-emptive schedule; no pre-emptive capacitated slot; a slotted node has no
+   reneging and no priority pre-emption.
+   whole configuration: if some node has priority pre-emption (resume / restart / resample), then no node has a capacity
+   (nobody is ever blocked) and there is no class change while waiting. *)
 Definition scope_nc (nc : ncfg) : bool :=
-  (nc_preempt nc =? 0) &&
+  negb (nc_preempt nc =? 4) &&
   match nc_srv nc with
   | SFixed => true
   | SSched sc => sc_pre sc =? 0
-  | SSlot sl => negb (sl_cap sl && negb (sl_pre sl =? 0)) && negb (nc_reneging nc)
+  | SSlot sl => negb (sl_cap sl && negb (sl_pre sl =? 0)) && negb (nc_reneging nc) && (nc_preempt nc =? 0)
   end.
-Definition scopeA (cf : config) : bool := forallb scope_nc (cf_nodes cf).
-Lemma scopeA_nc cf j nc : scopeA cf = true -> nthZ (cf_nodes cf) (j - 1) = Some nc -> scope_nc nc = true.
-Proof. unfold scopeA. rewrite forallb_forall. intros H Hn. apply H. eapply nthZ_In; eauto. Qed.
+Definition preempts (cf : config) : bool := existsb (fun nc => negb (nc_preempt nc =? 0)) (cf_nodes cf).
+Definition nocap (nc : ncfg) : bool := match nc_cap nc with None => true | Some _ => false end.
+Definition scope2 (cf : config) : bool :=
+  forallb scope_nc (cf_nodes cf) && (if preempts cf then forallb nocap (cf_nodes cf) && negb (cf_dyn cf) else true).
+(* the narrower scope without any pre-emption *)
+Definition scopeA (cf : config) : bool := forallb scope_nc (cf_nodes cf) && negb (preempts cf).
+Lemma scopeA_scope2 cf : scopeA cf = true -> scope2 cf = true.
+Proof. unfold scopeA, scope2. intros H. apply andb_true_iff in H as [H1 H2]. apply negb_true_iff in H2. rewrite H1, H2. reflexivity. Qed.
+Lemma scope2_nc cf j nc : scope2 cf = true -> nthZ (cf_nodes cf) (j - 1) = Some nc -> scope_nc nc = true.
+Proof. unfold scope2. intros H Hn. apply andb_true_iff in H as [H _]. rewrite forallb_forall in H. apply H. eapply nthZ_In; eauto. Qed.
+Lemma nopre_nc cf j nc : preempts cf = false -> nthZ (cf_nodes cf) (j - 1) = Some nc -> nc_preempt nc = 0.
+Proof.
+  unfold preempts. intros H Hn. destruct (nc_preempt nc =? 0) eqn:E; [apply Z.eqb_eq; exact E|]. exfalso.
+  assert (Hx : existsb (fun nc0 => negb (nc_preempt nc0 =? 0)) (cf_nodes cf) = true) by (apply existsb_exists; exists nc; split; [eapply nthZ_In; eauto|rewrite E; reflexivity]).
+  congruence.
+Qed.
+Lemma scope2_pre cf : scope2 cf = true -> preempts cf = true ->
+  (forall j nc, nthZ (cf_nodes cf) (j - 1) = Some nc -> nc_cap nc = None) /\ cf_dyn cf = false.
+Proof.
+  unfold scope2. intros H Hp. rewrite Hp in H. apply andb_true_iff in H as [_ H]. apply andb_true_iff in H as [H1 H2]. apply negb_true_iff in H2.
+  split; [|exact H2]. intros j nc Hn. rewrite forallb_forall in H1. specialize (H1 nc (nthZ_In _ _ _ Hn)). unfold nocap in H1. destruct (nc_cap nc); [discriminate|reflexivity].
+Qed.
 
 (* ---------- functions that change nothing the journey view looks at (some only while nobody is interrupted) ---------- *)
 Definition NoIntV (w : @view (Z * list (list Z) * list (Z * Z) * Z) (option Z * option Z * Z * option Z * bool) (list Z * Z * Z * Z * list rec)) : Prop :=
@@ -465,18 +542,18 @@ Section FrameJ.
     unfold take_servers_off_duty. change (0 =? 0) with true. cbv iota.
     kv using first [apply kj_kill_server | kjb].
   Qed.
-  Lemma kj_change_shift j : scopeA cf = true -> PN (change_shift cf j).
+  Lemma kj_change_shift j : scope2 cf = true -> PN (change_shift cf j).
   Proof.
     intros Hsc. unfold change_shift. unfold ncfg_of. apply kv_lift_bind. intros nc Hnc.
-    pose proof (scopeA_nc _ _ _ Hsc Hnc) as Hs. unfold scope_nc in Hs. apply andb_true_iff in Hs as [_ Hs].
+    pose proof (scope2_nc _ _ _ Hsc Hnc) as Hs. unfold scope_nc in Hs. apply andb_true_iff in Hs as [_ Hs].
     destruct (nc_srv nc) as [|sc|sl]; try apply kv_fail. apply Z.eqb_eq in Hs. rewrite Hs.
     kv using first [(apply kv_T; apply kj_take_off_duty0) | (apply kv_T; apply kj_add_new_servers) | (eapply kv_weak; [apply kj_bsip_change_shift|kconj]) | kjb].
   Qed.
-  Lemma kj_slotted_service j : scopeA cf = true -> PN (slotted_service cf j).
+  Lemma kj_slotted_service j : scope2 cf = true -> PN (slotted_service cf j).
   Proof.
     intros Hsc. unfold slotted_service. unfold ncfg_of. apply kv_lift_bind. intros nc Hnc.
-    pose proof (scopeA_nc _ _ _ Hsc Hnc) as Hs. unfold scope_nc in Hs. apply andb_true_iff in Hs as [_ Hs].
-    destruct (nc_srv nc) as [|sc|sl]; try apply kv_fail. apply andb_true_iff in Hs as [Hs _]. apply negb_true_iff in Hs. rewrite Hs.
+    pose proof (scope2_nc _ _ _ Hsc Hnc) as Hs. unfold scope_nc in Hs. apply andb_true_iff in Hs as [_ Hs].
+    destruct (nc_srv nc) as [|sc|sl]; try apply kv_fail. apply andb_true_iff in Hs as [Hs _]. apply andb_true_iff in Hs as [Hs _]. apply negb_true_iff in Hs. rewrite Hs.
     kv using first [(eapply kv_weak; [apply kj_slot_loop|kconj]) | kjb].
   Qed.
 End FrameJ.
@@ -644,6 +721,34 @@ Proof.
       * cbn. intros E2. injection E2 as <- _. exact (F i r1 l1 E1).
     + rewrite (recs_of_snoc_other _ _ _ Hne). apply F.
   - intros r' Hr'. apply in_app_or in Hr' as [Hr'|[<-|[]]]; [exact (D r' Hr')|exact Hle].
+Qed.
+
+(* a record of a customer that stays where it is (an interruption record); its table entry changes with it *)
+Lemma JH_log2 H s s' r : JH H s -> r_id r <= a_created (arr s) ->
+  (forall r1, last_of (r_id r) H = Some r1 -> link r1 r) -> (recs_of (r_id r) H = [] -> an (r_id r) = Some (r_node r)) ->
+  ~ In (r_id r) (exit_ids s) ->
+  (forall k y, at_node s' k y -> at_node s k y) -> exit_ids s' = exit_ids s -> a_created (arr s) <= a_created (arr s') ->
+  (forall y, y <> r_id r -> option_map jv3 (find_ind y (inds s')) = option_map jv3 (find_ind y (inds s))) ->
+  (forall k, at_node s k (r_id r) -> exists x', find_ind (r_id r) (inds s') = Some x' /\ good k (r_id r) x' (H ++ [r])) ->
+  JH (H ++ [r]) s'.
+Proof.
+  intros [A B C F D] Hle Hl Hfst Aw2 Hat He Hc Hv Hme. constructor.
+  - intros k i Hk. specialize (Hat _ _ Hk). destruct (Z.eq_dec (r_id r) i) as [E|Hne].
+    + rewrite <- E in *. exact (Hme k Hat).
+    + destruct (A k i Hat) as (x & Hx & Hg). specialize (Hv i ltac:(congruence)). rewrite Hx in Hv. cbn in Hv.
+      apply omap_jv3 in Hv as (x' & Hx' & Hv). exists x'. split; [exact Hx'|]. eapply good_jv3; [exact Hv|].
+      unfold good, last_of in *. rewrite (recs_of_snoc_other _ _ _ Hne). exact Hg.
+  - intros i Hi. rewrite He in Hi. assert (Hne : r_id r <> i) by (intros E; rewrite E in Aw2; exact (Aw2 Hi)).
+    unfold last_of. rewrite (recs_of_snoc_other _ _ _ Hne). exact (B i Hi).
+  - intros i. destruct (Z.eq_dec (r_id r) i) as [E|Hne].
+    + rewrite (recs_of_snoc_same _ _ _ E). apply chain_snoc; [apply C|]. rewrite <- E. exact Hl.
+    + rewrite (recs_of_snoc_other _ _ _ Hne). apply C.
+  - intros i r0 l. destruct (Z.eq_dec (r_id r) i) as [E|Hne].
+    + rewrite (recs_of_snoc_same _ _ _ E). destruct (recs_of i H) as [|r1 l1] eqn:E1.
+      * cbn. intros E2. injection E2 as <- _. rewrite <- E. apply Hfst. rewrite E. exact E1.
+      * cbn. intros E2. injection E2 as <- _. exact (F i r1 l1 E1).
+    + rewrite (recs_of_snoc_other _ _ _ Hne). apply F.
+  - intros r' Hr'. apply in_app_or in Hr' as [Hr'|[<-|[]]]; [specialize (D r' Hr'); lia|lia].
 Qed.
 
 (* the customer in flight lands in node d *)
@@ -827,7 +932,9 @@ Record SrvInv (cf : config) (fl : list Z) (s : sim) : Prop := mkSrv {
   si_own : forall j nd sv c, nodeZ s j = Some nd -> slot_of cf j = false -> In sv (n_servers nd) -> sv_cust sv = Some c ->
      exists x, find_ind c (inds s) = Some x /\ i_server x = Some (sv_id sv) /\ i_node x = Some j /\ (sv_next_end sv <> None -> i_blocked x = false);
   si_blk : forall i x, find_ind i (inds s) = Some x -> ~ In i fl -> i_blocked x = true -> i_server x = None ->
-     exists k nd, i_node x = Some k /\ nodeZ s k = Some nd /\ (nd_inf nd = true \/ slot_of cf k = true)
+     exists k nd, i_node x = Some k /\ nodeZ s k = Some nd /\ (nd_inf nd = true \/ slot_of cf k = true);
+  (* with priority pre-emption in the configuration (hence no capacities) nobody is blocked *)
+  si_nb : preempts cf = true -> forall i x, find_ind i (inds s) = Some x -> i_blocked x = false
 }.
 Definition NoOwner (cf : config) (i : Z) (s : sim) : Prop :=
   forall j nd sv, nodeZ s j = Some nd -> slot_of cf j = false -> In sv (n_servers nd) -> sv_cust sv <> Some i.
@@ -896,7 +1003,7 @@ Proof.
 Qed.
 Lemma SrvInv_VS cf fl s s' : VS s' = VS s -> SrvInv cf fl s -> SrvInv cf fl s'.
 Proof.
-  intros E [A B C]. assert (E' : VS s = VS s') by auto. constructor.
+  intros E [A B C Dnb]. assert (E' : VS s = VS s') by auto. constructor.
   - intros j nd' Hn. destruct (VS_node _ _ _ _ E Hn) as (nd & Hn0 & _ & E1 & E2 & E3). eapply SrvN_eq; eauto.
   - intros j nd' sv c Hn Hs Hin Hc. destruct (VS_node _ _ _ _ E Hn) as (nd & Hn0 & _ & E1 & _ & _).
     destruct (srv3_in _ _ _ E1 Hin) as (sv0 & H0 & E0). unfold srv3 in E0. injection E0 as E01 E02 E03.
@@ -907,6 +1014,7 @@ Proof.
     destruct (C i x Hx Hfl ltac:(congruence) ltac:(congruence)) as (k & nd & Hk & Hn & Hor).
     pose proof (VW_node fnS fiS fgS s s' k E) as Hv. rewrite Hn in Hv. destruct (nodeZ s' k) as [nd'|] eqn:En'; [|discriminate].
     cbn in Hv. unfold nv, fnS in Hv. injection Hv as _ _ _ E4. exists k, nd'. split; [congruence|]. split; [exact En'|]. rewrite E4. exact Hor.
+  - intros Hp i x' Hf. destruct (VS_find _ _ i x' E Hf) as (x & Hx & _ & _ & Q3). rewrite Q3. exact (Dnb Hp i x Hx).
 Qed.
 Lemma NoOwner_VS cf i s s' : VS s' = VS s -> NoOwner cf i s -> NoOwner cf i s'.
 Proof.
@@ -948,7 +1056,7 @@ Lemma SrvInv_put_node cf fl s s' j nd nd' : SrvInv cf fl s -> nodeZ s j = Some n
   (nd_inf nd = true -> nd_inf nd' = true) ->
   SrvInv cf fl s'.
 Proof.
-  intros [A B C] Hn Hid En Ei HN Hown Hinf. rewrite <- Hid in Hn. constructor.
+  intros [A B C Dnb] Hn Hid En Ei HN Hown Hinf. rewrite <- Hid in Hn. constructor.
   - intros k n Hk. rewrite (nodeZ_upd s s' nd' nd k En Hn) in Hk. destruct (Z.eqb_spec k (n_id nd')) as [->|Hne]; [injection Hk as <-; rewrite Hid; exact HN|exact (A k n Hk)].
   - intros k n sv c Hk Hs Hin Hc. rewrite Ei. rewrite (nodeZ_upd s s' nd' nd k En Hn) in Hk. destruct (Z.eqb_spec k (n_id nd')) as [->|Hne].
     + injection Hk as <-. rewrite Hid in *. exact (Hown Hs sv c Hin Hc).
@@ -958,6 +1066,7 @@ Proof.
     + exists (n_id nd'), nd'. split; [exact Hk|]. split; [rewrite (nodeZ_upd s s' nd' nd _ En Hn), Z.eqb_refl; reflexivity|].
       assert (n = nd) by congruence. subst n. destruct Hor as [Hor|Hor]; [left; apply Hinf; exact Hor|right; exact Hor].
     + exists k, n. split; [exact Hk|]. split; [|exact Hor]. rewrite (nodeZ_upd s s' nd' nd _ En Hn). apply Z.eqb_neq in Hne. rewrite Hne. exact Hnk.
+  - intros Hp i x Hf. rewrite Ei in Hf. exact (Dnb Hp i x Hf).
 Qed.
 (* the record of customer i is replaced (nodes untouched); fl' may drop i from the customers in flight *)
 Lemma SrvInv_put_ind cf fl fl' s s' i x x' : SrvInv cf fl s -> find_ind i (inds s) = Some x -> i_id x' = i ->
@@ -967,9 +1076,10 @@ Lemma SrvInv_put_ind cf fl fl' s s' i x x' : SrvInv cf fl s -> find_ind i (inds 
      i_server x' = Some (sv_id sv) /\ i_node x' = Some j /\ (sv_next_end sv <> None -> i_blocked x' = false)) ->
   (~ In i fl' -> i_blocked x' = true -> i_server x' = None ->
      exists k nd, i_node x' = Some k /\ nodeZ s k = Some nd /\ (nd_inf nd = true \/ slot_of cf k = true)) ->
+  (preempts cf = true -> i_blocked x' = false) ->
   SrvInv cf fl' s'.
 Proof.
-  intros [A B C] Hf Hid En Ei Hfl Hown Hblk.
+  intros [A B C Dnb] Hf Hid En Ei Hfl Hown Hblk Hnb.
   assert (HZ : forall k, nodeZ s' k = nodeZ s k) by (intros k; apply nodeZ_same; exact En). constructor.
   - intros j nd Hn. rewrite HZ in Hn. exact (A j nd Hn).
   - intros j nd sv c Hn Hs Hin Hc. rewrite HZ in Hn. rewrite Ei. destruct (Z.eq_dec c i) as [->|Hne].
@@ -981,6 +1091,9 @@ Proof.
     + rewrite find_put_other in Hy by congruence. destruct (C y z Hy) as (k & nd & P1 & P2 & P3); [|exact Hb|exact Hs|].
       * intros Hin. apply Hny. apply Hfl; assumption.
       * exists k, nd. rewrite HZ. auto.
+  - intros Hp y z Hy. rewrite Ei in Hy. destruct (Z.eq_dec y i) as [->|Hne].
+    + rewrite <- Hid in Hy at 1. rewrite find_put_same in Hy. injection Hy as <-. exact (Hnb Hp).
+    + rewrite find_put_other in Hy by congruence. exact (Dnb Hp y z Hy).
 Qed.
 Lemma NoOwner_of cf fl s i x : SrvInv cf fl s -> find_ind i (inds s) = Some x -> i_server x = None -> NoOwner cf i s.
 Proof.
@@ -1046,9 +1159,10 @@ Section SrvOps.
     (* first the record, then the server *)
     set (sa := s <| inds := put_ind_l xc' (inds s) |>).
     assert (HS1 : SrvInv cf fl sa).
-    { apply (SrvInv_put_ind cf fl fl s sa c xc xc' HS Hf Hidc); [reflexivity|reflexivity|auto| |].
+    { apply (SrvInv_put_ind cf fl fl s sa c xc xc' HS Hf Hidc); [reflexivity|reflexivity|auto| | |].
       - intros j0 n0 sv0 A1 A2 A3 A4. exfalso. exact (Hno j0 n0 sv0 A1 A2 A3 A4).
-      - intros _ _ Hx. discriminate Hx. }
+      - intros _ _ Hx. discriminate Hx.
+      - intros Hp. exact (si_nb _ _ _ HS Hp c xc Hf). }
     assert (Hfc : find_ind c (inds s') = Some xc') by (rewrite Ei1; rewrite <- Hidc at 1; change (i_id xc) with (i_id xc'); apply find_put_same).
     destruct (find_server sid (n_servers nd)) as [sv|] eqn:Efs.
     - destruct (find_server_spec _ _ _ Efs) as [Hsin Hsid].
@@ -1090,7 +1204,8 @@ Section SrvOps.
         - intros k n Hk. rewrite (nodeZ_same sa s' k En) in Hk. exact (si_n _ _ _ HS1 k n Hk).
         - intros k n t c0 Hk. rewrite (nodeZ_same sa s' k En) in Hk. rewrite Ei1. exact (si_own _ _ _ HS1 k n t c0 Hk).
         - intros y z Hy. rewrite Ei1 in Hy. intros A1 A2 A3. destruct (si_blk _ _ _ HS1 y z Hy A1 A2 A3) as (k & n & P1 & P2 & P3).
-          exists k, n. rewrite (nodeZ_same sa s' k En). auto. }
+          exists k, n. rewrite (nodeZ_same sa s' k En). auto.
+        - intros Hp y z Hy. rewrite Ei1 in Hy. exact (si_nb _ _ _ HS1 Hp y z Hy). }
       split; [exact HS2|]. split.
       + intros _ n t c0 Hnn Ht Htid _. exfalso. rewrite (nodeZ_same sa s' j En) in Hnn. change (nodeZ sa j) with (nodeZ s j) in Hnn.
         assert (n = nd) by congruence. subst n. exact (find_server_some _ _ _ Ht Htid Efs).
@@ -1129,6 +1244,7 @@ Section SrvOps.
         * intros k n t c0 Hk. rewrite (nodeZ_same s s' k Hm) in Hk. rewrite Ei. exact (si_own _ _ _ HS k n t c0 Hk).
         * intros y z Hy. rewrite Ei in Hy. intros A1 A2 A3. destruct (si_blk _ _ _ HS y z Hy A1 A2 A3) as (k & n & P1 & P2 & P3).
           exists k, n. rewrite (nodeZ_same s s' k Hm). auto.
+        * intros Hp y z Hy. rewrite Ei in Hy. exact (si_nb _ _ _ HS Hp y z Hy).
       + intros i HN j0 n0 t Hnn. rewrite (nodeZ_same s s' j0 Hm) in Hnn. exact (HN j0 n0 t Hnn).
   Qed.
 
@@ -1162,9 +1278,10 @@ Section SrvOps.
   Qed.
 
   (* detatch_server in release: the customer in flight leaves its server *)
-  Lemma srv_detatch fl j sid i s s' xi : Idx s -> SrvInv cf fl s -> In i fl -> find_ind i (inds s) = Some xi ->
+  Lemma srv_detatch fl j sid i s s' xi : Idx s -> SrvInv cf fl s -> (In i fl \/ i_blocked xi = false) -> find_ind i (inds s) = Some xi ->
     i_node xi = Some j -> i_server xi = Some sid -> detatch_server j sid i s = Ok (tt, s') ->
-    SrvInv cf fl s' /\ NoOwner cf i s' /\ (forall i', NoOwner cf i' s -> NoOwner cf i' s').
+    SrvInv cf fl s' /\ NoOwner cf i s' /\ (forall i', NoOwner cf i' s -> NoOwner cf i' s') /\
+    (forall y, y <> i -> find_ind y (inds s') = find_ind y (inds s)).
   Proof.
     intros HI HS Hfl Hf Hnode Hsrv H. unfold detatch_server in H. mstep H as t0. mstep H as nd. mstep H as xr.
     assert (xr = xi) by congruence. subst xr. clear Hf0. pose proof (HI _ _ Hn) as Hid. pose proof (find_ind_id _ _ _ Hf) as Hidi.
@@ -1200,28 +1317,36 @@ Section SrvOps.
       assert (Ei0 : inds s1 = put_ind_l xi' (inds sa)) by (rewrite E; cbn; exact Ei1).
       assert (HS2 : SrvInv cf fl s1 /\ NoOwner cf i s1 /\ (forall i', NoOwner cf i' s -> NoOwner cf i' s1)).
       { split; [|split].
-        - apply (SrvInv_put_ind cf fl fl sa s1 i xi xi' HSa Hf Hidi En0 Ei0); [auto| |].
+        - apply (SrvInv_put_ind cf fl fl sa s1 i xi xi' HSa Hf Hidi En0 Ei0); [auto| | |].
           + intros j0 n0 t A1 A2 A3 A4. exfalso. exact (HNa j0 n0 t A1 A2 A3 A4).
-          + intros Hx. exfalso. exact (Hx Hfl).
+          + intros Hx Hb. exfalso. destruct Hfl as [Hfl|Hfl]; [exact (Hx Hfl)|change (i_blocked xi') with (i_blocked xi) in Hb; congruence].
+          + intros Hp. exact (si_nb _ _ _ HS Hp i xi Hf).
         - intros j0 n0 t A1. rewrite (nodeZ_same sa s1 j0 En0) in A1. exact (HNa j0 n0 t A1).
         - intros i' HN j0 n0 t A1 A2 A3 A4. rewrite (nodeZ_same sa s1 j0 En0), HZa in A1. destruct (Z.eqb_spec j0 j) as [->|Hne].
           + injection A1 as <-. destruct (Hput t A3) as [->|[Ht' _]]; [cbn in A4; discriminate A4|exact (HN j nd t Hn A2 Ht' A4)].
           + exact (HN j0 n0 t A1 A2 A3 A4). }
-      destruct HS2 as (HS2 & HN2 & HO2). destruct (sv_offduty sv).
+      destruct HS2 as (HS2 & HN2 & HO2).
+      assert (Hfo1 : forall y, y <> i -> find_ind y (inds s1) = find_ind y (inds s)).
+      { intros y Hy. rewrite Ei0. change (inds sa) with (inds s). rewrite find_put_other; [reflexivity|]. change (i_id xi') with (i_id xi). congruence. }
+      destruct (sv_offduty sv).
       + assert (I0 : Idx s1).
         { intros k n Hk. rewrite (nodeZ_same sa s1 k En0), HZa in Hk.
           destruct (Z.eqb_spec k j) as [->|Hne]; [injection Hk as <-; exact Hid|exact (HI k n Hk)]. }
-        destruct (srv_kill_server fl j sid s1 s' I0 HS2 H) as (HS3 & HO3). split; [exact HS3|]. split; [apply HO3; exact HN2|]. intros i' HN. apply HO3, HO2, HN.
+        destruct (srv_kill_server fl j sid s1 s' I0 HS2 H) as (HS3 & HO3). split; [exact HS3|]. split; [apply HO3; exact HN2|]. split; [intros i' HN; apply HO3, HO2, HN|].
+        intros y Hy. rewrite <- (Hfo1 y Hy). f_equal. unfold kill_server in H. mstep H as t1. mstep H as nd2. mstep H as sv2.
+        unfold put_node in H. apply modify_spec in H. rewrite H. reflexivity.
       + apply ret_spec in H as [_ ->]. auto.
     - apply ret_spec in H as [_ ->].
       assert (HN0 : NoOwner cf i s).
       { intros j0 n0 t A1 A2 A3 A4. destruct (Hown j0 n0 t A1 A2 A3 A4) as (-> & -> & Hx). exact (find_server_some _ _ _ A3 Hx Efs). }
       split; [|split].
-      + apply (SrvInv_put_ind cf fl fl s s0 i xi xi' HS Hf Hidi En1 Ei1); [auto| |].
+      + apply (SrvInv_put_ind cf fl fl s s0 i xi xi' HS Hf Hidi En1 Ei1); [auto| | |].
         * intros j0 n0 t A1 A2 A3 A4. exfalso. exact (HN0 j0 n0 t A1 A2 A3 A4).
-        * intros Hx. exfalso. exact (Hx Hfl).
+        * intros Hx Hb. exfalso. destruct Hfl as [Hfl|Hfl]; [exact (Hx Hfl)|change (i_blocked xi') with (i_blocked xi) in Hb; congruence].
+        * intros Hp. exact (si_nb _ _ _ HS Hp i xi Hf).
       + intros j0 n0 t A1. rewrite (nodeZ_same s s0 j0 En1) in A1. exact (HN0 j0 n0 t A1).
-      + intros i' HN j0 n0 t A1. rewrite (nodeZ_same s s0 j0 En1) in A1. exact (HN j0 n0 t A1).
+      + split; [intros i' HN j0 n0 t A1; rewrite (nodeZ_same s s0 j0 En1) in A1; exact (HN j0 n0 t A1)|].
+        intros y Hy. rewrite Ei1, find_put_other; [reflexivity|]. change (i_id xi') with (i_id xi). congruence.
   Qed.
 
   Lemma srv_add_new_servers fl : forall k j s s', Idx s -> SrvInv cf fl s -> (forall nd, nodeZ s j = Some nd -> nd_inf nd = false) ->
@@ -1485,6 +1610,31 @@ Section SrvWalk.
       split; [exact HC6|]. split; [exact HS6|]. split; [congruence|]. intros i Hi HN. apply HO6. apply (NoOwner_VS cf i s0 s5 ES). apply HO0; assumption.
   Qed.
 
+  Lemma srv_start_preemptor fl j c sid s s' : Ctx fl s -> SrvInv cf fl s -> Waits s j c ->
+    start_preemptor cf j c sid s = Ok (tt, s') ->
+    Ctx fl s' /\ SrvInv cf fl s' /\ VJ s' = VJ s /\ (forall i, i <> c -> NoOwner cf i s -> NoOwner cf i s').
+  Proof.
+    intros HC HS HW H. destruct HW as ((nd & Hn & Hin) & xc & Hxc & Hsv).
+    assert (Hnode : i_node xc = Some j).
+    { destruct (proj1 (proj2 HC) j c (ex_intro _ nd (conj Hn Hin))) as (x0 & Hx0 & Hk). congruence. }
+    assert (Hfl : ~ In c fl) by (eapply WFx2_at_notfl; [exact (proj1 HC)|exists nd; eauto]).
+    unfold start_preemptor in H. mstep H as u0.
+    destruct (srv_attach cf fl j sid c s s0 nd xc (Ctx_Idx _ _ HC) HS Hn Hxc Hsv Hnode Hfl E) as (HS0 & HU0 & HO0).
+    destruct (carryJ fl _ s _ s0 (kv_T _ _ _ _ _ (kj_attach_server j sid c)) HC E) as (HC0 & EJ0). clear E HS HC.
+    mstep H as t0. bstep H HC0 HS0 as ES1 EJ1. bstep H HC0 HS0 as ES2 EJ2.
+    mstep H as x. mstep H as st. apply stime_num_same in E. subst s3.
+    mstep H as u1. pose proof (find_ind_id _ _ _ Hf) as Hidx.
+    match type of E with put_ind ?x' _ = _ =>
+      destruct (carry_put_ind cf fl s2 s3 tt x x' ltac:(change (i_id x') with (i_id x); rewrite Hidx; exact Hf) eq_refl HC0 HS0 E) as (HC3 & HS3 & ES3 & EJ3) end.
+    clear E HC0 HS0.
+    bstep H HC3 HS3 as ES4 EJ4.
+    assert (ES : VS s4 = VS s0) by congruence. assert (EJ : VJ s4 = VJ s) by congruence.
+    match type of H with set_next_end _ _ ?d _ = _ => destruct (srv_set_next_end cf fl j sid d s4 s' (Ctx_Idx _ _ HC3) HS3) as (HS6 & HO6); [|exact H|] end.
+    + intros _ Hsl. apply (Unb_VS s0 s4 j sid ES). exact (HU0 Hsl).
+    + destruct (carryJ fl _ s4 _ s' (kv_T _ _ _ _ _ (kj_set_next_end j sid _)) HC3 H) as (HC6 & EJ6).
+      split; [exact HC6|]. split; [exact HS6|]. split; [congruence|]. intros i Hi HN. apply HO6. apply (NoOwner_VS cf i s0 s4 ES). apply HO0; assumption.
+  Qed.
+
   (* what the service-starting functions do for a customer i that is in no node *)
   Definition Outside (s : sim) (i : Z) : Prop := forall k, ~ at_node s k i.
   Lemma Outside_VJ s s' i : VJ s' = VJ s -> Outside s i -> Outside s' i.
@@ -1559,11 +1709,11 @@ Section SrvWalk.
     split; [eapply Ctx_VJ; eauto|exact EJ].
   Qed.
 
-  Lemma srv_change_shift fl j s s' : scopeA cf = true -> Ctx fl s -> SrvInv cf fl s -> change_shift cf j s = Ok (tt, s') ->
+  Lemma srv_change_shift fl j s s' : scope2 cf = true -> Ctx fl s -> SrvInv cf fl s -> change_shift cf j s = Ok (tt, s') ->
     Ctx fl s' /\ SrvInv cf fl s' /\ VJ s' = VJ s /\ (forall i, Outside s i -> NoOwner cf i s -> NoOwner cf i s').
   Proof.
     intros Hsc HC HS H. unfold change_shift in H. mstep H as nc.
-    pose proof (scopeA_nc _ _ _ Hsc Hc) as Hs. unfold scope_nc in Hs. apply andb_true_iff in Hs as [_ Hs].
+    pose proof (scope2_nc _ _ _ Hsc Hc) as Hs. unfold scope_nc in Hs. apply andb_true_iff in Hs as [_ Hs].
     destruct (nc_srv nc) as [|sc|sl] eqn:Esrv; try discriminate H. apply Z.eqb_eq in Hs.
     assert (Hsch : sched_of cf j = true) by (unfold sched_of; rewrite Hc, Esrv; reflexivity).
     mstep H as nd. mstep H as u0.
@@ -1610,10 +1760,11 @@ Section SrvWalk.
       destruct (carryJ_put_ind fl s3 s4 tt x xn ltac:(change (i_id xn) with (i_id x); rewrite Hidx; exact Hf) eq_refl HC0 E0) as (HC4 & EJ4).
       destruct (put_ind_facts _ _ _ _ E0) as (Ei4 & En4 & _).
       assert (HS4 : SrvInv cf fl s4).
-      { apply (SrvInv_put_ind cf fl fl s3 s4 c x xn HS0 Hf Hidx En4 Ei4); [auto| |].
+      { apply (SrvInv_put_ind cf fl fl s3 s4 c x xn HS0 Hf Hidx En4 Ei4); [auto| | |].
         - intros j0 n0 sv A1 A2 A3 A4. exfalso. destruct (si_own _ _ _ HS0 j0 n0 sv c A1 A2 A3 A4) as (y & Hy & _ & P2 & _).
           assert (y = x) by congruence. subst y. assert (j0 = j) by congruence. subst j0. congruence.
-        - intros _ _ Hx. discriminate Hx. }
+        - intros _ _ Hx. discriminate Hx.
+        - intros Hp. exact (si_nb _ _ _ HS0 Hp c x Hf). }
       clear E0 HS0 HC0. bstep G HC4 HS4 as ES5 EJ5.
       destruct (carryB cf fl _ s5 _ s1 (kb_reset_class_change cf j c) HC4 HS4 G) as (HC6 & HS6 & ES6 & EJ6).
       split; [exact HC6|]. split; [exact HS6|]. split; [congruence|]. intros i HN.
@@ -1624,12 +1775,12 @@ Section SrvWalk.
     split; [exact HC2|]. split; [exact HS2|]. split; [congruence|]. intros i HN. apply HO2, HO1. exact (NoOwner_VS cf i s s0 ES0 HN).
   Qed.
 
-  Lemma srv_slotted_service fl j s s' : scopeA cf = true -> Ctx fl s -> SrvInv cf fl s -> slotted_service cf j s = Ok (tt, s') ->
+  Lemma srv_slotted_service fl j s s' : scope2 cf = true -> Ctx fl s -> SrvInv cf fl s -> slotted_service cf j s = Ok (tt, s') ->
     Ctx fl s' /\ SrvInv cf fl s' /\ VJ s' = VJ s /\ (forall i, NoOwner cf i s -> NoOwner cf i s').
   Proof.
     intros Hsc HC HS H. unfold slotted_service in H. mstep H as nc.
-    pose proof (scopeA_nc _ _ _ Hsc Hc) as Hs. unfold scope_nc in Hs. apply andb_true_iff in Hs as [_ Hs].
-    destruct (nc_srv nc) as [|sc|sl] eqn:Esrv; try discriminate H. apply andb_true_iff in Hs as [Hs _]. apply negb_true_iff in Hs.
+    pose proof (scope2_nc _ _ _ Hsc Hc) as Hs. unfold scope_nc in Hs. apply andb_true_iff in Hs as [_ Hs].
+    destruct (nc_srv nc) as [|sc|sl] eqn:Esrv; try discriminate H. apply andb_true_iff in Hs as [Hs _]. apply andb_true_iff in Hs as [Hs _]. apply negb_true_iff in Hs.
     assert (Hsl : slot_of cf j = true) by (unfold slot_of, nc_slotted; rewrite Hc, Esrv; reflexivity).
     mstep H as nd. mstep H as u0.
     assert (s0 = s) by (destruct (sl_b sl); [discriminate E|apply ret_spec in E as [_ ->]; reflexivity]). subst s0. clear E.
@@ -1646,7 +1797,7 @@ End SrvWalk.
 Lemma shp_put_ind s x' x0 : find_ind (i_id x') (inds s) = Some x0 -> Conserve2.shp (s <| inds := put_ind_l x' (inds s) |>) = Conserve2.shp s.
 Proof. intros Hf. unfold Conserve2.shp. cbn. f_equal. apply Conserve2.put_ind_l_ids_in. eapply Conserve2.find_ind_In; eauto. Qed.
 Lemma SrvInv_fl_weaken cf fl fl' s : (forall y, In y fl -> In y fl') -> SrvInv cf fl s -> SrvInv cf fl' s.
-Proof. intros Hsub [A B C]. constructor; [exact A|exact B|]. intros i x Hf Hn. apply (C i x Hf). intros Hin. apply Hn, Hsub, Hin. Qed.
+Proof. intros Hsub [A B C Dnb]. constructor; [exact A|exact B| |exact Dnb]. intros i x Hf Hn. apply (C i x Hf). intros Hin. apply Hn, Hsub, Hin. Qed.
 Lemma find_del_same i l : NoDup (map i_id l) -> find_ind i (del_ind_l i l) = None.
 Proof.
   induction l as [|y r IH]; cbn; [reflexivity|]. intros H. inversion H as [|? ? Hn Hd]. destruct (i_id y =? i) eqn:E.
@@ -1832,10 +1983,9 @@ Section Bodies.
   Proof. reflexivity. Qed.
 End Bodies.
 
-Lemma preempt_victim_none cf j c s v s' : scopeA cf = true -> preempt_victim cf j c s = Ok (v, s') -> v = None /\ s' = s.
+Lemma preempt_victim_none cf j c s v s' : preempts cf = false -> preempt_victim cf j c s = Ok (v, s') -> v = None /\ s' = s.
 Proof.
-  intros Hsc H. unfold preempt_victim in H. mstep H as nc.
-  pose proof (scopeA_nc _ _ _ Hsc Hc) as Hs. unfold scope_nc in Hs. apply andb_true_iff in Hs as [Hs _]. rewrite Hs in H.
+  intros Hnp H. unfold preempt_victim in H. mstep H as nc. rewrite (nopre_nc _ _ _ Hnp Hc) in H. change (0 =? 0) with true in H. cbv iota in H.
   apply ret_spec in H as [-> ->]. auto.
 Qed.
 Lemma decide_between_spec l i s s' : decide_between l s = Ok (i, s') -> In i l.
@@ -1888,7 +2038,7 @@ Section Walk.
   Variable cf : config.
   Variable an : Z -> option Z.
   Variable h : list rec.             (* the history before the current event *)
-  Hypothesis Hsc : scopeA cf = true.
+  Hypothesis Hsc : scope2 cf = true.
 
   Definition St (fl : list Z) (s : sim) : Prop := Jst an h fl s /\ SrvInv cf fl s.
   Lemma St_Ctx fl s : St fl s -> Ctx fl s. Proof. intros [A _]. eapply Jst_Ctx; eauto. Qed.
@@ -1897,6 +2047,34 @@ Section Walk.
   (* from a journey state and the results of a server lemma *)
   Lemma St_of fl s s' : St fl s -> VJ s' = VJ s -> SrvInv cf fl s' -> St fl s'.
   Proof. intros [A _] EJ HS. split; [eapply Jst_VJ; eauto|exact HS]. Qed.
+
+  Lemma WFx2_at_le s k y : Conserve2.WFx2 [] s -> at_node s k y -> 1 <= y <= a_created (arr s).
+  Proof.
+    intros (_ & _ & H0 & HP & _) Hat. assert (Hin : In y (zseq 1 (Z.to_nat (a_created (arr s))))).
+    { eapply Permutation_in; [exact HP|]. apply in_or_app. left. eapply at_node_qids; eauto. }
+    apply zseq_In in Hin. cbn in *. lia.
+  Qed.
+  Lemma WFx2_rec_le s y x : Conserve2.WFx2 [] s -> find_ind y (inds s) = Some x -> 1 <= y <= a_created (arr s).
+  Proof.
+    intros HW Hf. destruct (WFx2_rec_place _ _ _ _ HW Hf) as [[k Hk]|[]]. eapply WFx2_at_le; eauto.
+  Qed.
+
+  Lemma St_carryB fl {X} (m : M X) s a s' : keepB KT m -> St fl s -> m s = Ok (a, s') -> St fl s' /\ VJ s' = VJ s /\ VS s' = VS s.
+  Proof.
+    intros Hm [HJ HS] H. destruct (carryB cf fl m s a s' Hm (Jst_Ctx an h _ _ HJ) HS H) as (_ & HS' & ES & EJ).
+    split; [split; [eapply Jst_VJ; eauto|exact HS']|auto].
+  Qed.
+
+  (* the record of customer i keeps its views through steps that neither view sees *)
+  Lemma rec_VJS s s' i y : VJ s' = VJ s -> VS s' = VS s -> find_ind i (inds s) = Some y ->
+    exists y', find_ind i (inds s') = Some y' /\ fiJ y' = fiJ y /\ fiS y' = fiS y.
+  Proof.
+    intros EJ ES Hf. pose proof (VJ_find s s' i EJ) as Hv. rewrite Hf in Hv. destruct (find_ind i (inds s')) as [y'|] eqn:E; [|discriminate Hv].
+    cbn [option_map] in Hv. exists y'. split; [reflexivity|]. split; [congruence|].
+    pose proof (VW_ind fnS fiS fgS s s' i ES) as Hw. rewrite Hf, E in Hw. cbn [option_map] in Hw. congruence.
+  Qed.
+  Lemma unblocked_NoEntry s i y : Lq s -> find_ind i (inds s) = Some y -> i_blocked y = false -> NoEntry s i.
+  Proof. intros HL Hf Hb d fr He. destruct (l_ent _ HL d fr i He) as (x & Hx & _ & Hbx). congruence. Qed.
 
   (* ---------- ExitNode.accept: the customer in flight reaches the exit ---------- *)
   Lemma exit_accept_St i c s s' : St [i] s -> NoEntry s i -> NoOwner cf i s ->
@@ -1915,7 +2093,8 @@ Section Walk.
         rewrite find_del_other; [auto|]. intros ->. exact (HN d f He).
       + exact C2.
     - exact D.
-    - destruct HS as [S1 S2 S3]. constructor.
+    - destruct HS as [S1 S2 S3 S4]. constructor; [| | |intros Hp y z Hy; cbn in Hy; destruct (Z.eq_dec y i) as [->|Hne];
+        [rewrite (find_del_same i _ Hnd) in Hy; discriminate Hy|rewrite find_del_other in Hy by exact Hne; exact (S4 Hp y z Hy)]].
       + exact S1.
       + intros j nd sv c0 Hn Hsl Hin Hc. change (nodeZ s j = Some nd) in Hn. destruct (S2 j nd sv c0 Hn Hsl Hin Hc) as (x & Hx & P).
         exists x. cbn. rewrite find_del_other; [auto|]. intros ->. exact (HO j nd sv Hn Hsl Hin Hc).
@@ -1923,12 +2102,164 @@ Section Walk.
         rewrite find_del_other in Hy by exact Hne. apply (S3 y z Hy); [|exact Hb|exact Hs]. intros [E|[]]. congruence.
   Qed.
 
+  (* ---------- priority pre-emption without rerouting: the victim stays in its node ---------- *)
+  Lemma omap_in {X Y} (g : X -> option Y) : forall l ps p, omap g l = Some ps -> In p ps -> exists a, In a l /\ g a = Some p.
+  Proof.
+    induction l as [|a r IH]; intros ps p H Hp; cbn in H; [injection H as <-; destruct Hp|].
+    destruct (g a) as [y|] eqn:Ea; cbn in H; [|discriminate]. destruct (omap g r) as [ys|] eqn:Er; cbn in H; [|discriminate]. injection H as <-.
+    destruct Hp as [<-|Hp]; [exists a; split; [left; reflexivity|exact Ea]|]. destruct (IH ys p eq_refl Hp) as (b & Hb & Eb). exists b. split; [right; exact Hb|exact Eb].
+  Qed.
+  Lemma first_max_in {X} (key : X -> Z) : forall l best, In (first_max key l best) (best :: l).
+  Proof.
+    induction l as [|a r IH]; intros best; cbn [first_max]; [left; reflexivity|]. destruct (key best <? key a).
+    - destruct (IH a) as [E|Hin]; [right; left; exact E|right; right; exact Hin].
+    - destruct (IH best) as [E|Hin]; [left; exact E|right; right; exact Hin].
+  Qed.
+  Lemma preempt_victim_same j c v s s' : preempt_victim cf j c s = Ok (v, s') -> s' = s.
+  Proof.
+    intros H. unfold preempt_victim in H. mstep H as nc. destruct (nc_preempt nc =? 0); [apply ret_spec in H as [_ ->]; reflexivity|].
+    mstep H as nd. mstep H as il. mstep H as ps. destruct ps as [|p0 pr]; [discriminate H|]. mstep H as x.
+    match type of H with (if ?b then _ else _) _ = _ => destruct b end; [|apply ret_spec in H as [_ ->]; reflexivity].
+    match type of H with match ?l with _ => _ end _ = _ => destruct l end; [discriminate H|apply ret_spec in H as [_ ->]; reflexivity].
+  Qed.
+  Lemma preempt_victim_spec j c v s s' : preempt_victim cf j c s = Ok (Some v, s') ->
+    s' = s /\ (exists nd sv, nodeZ s j = Some nd /\ In sv (n_servers nd) /\ sv_cust sv = Some v) /\
+    exists nc, nthZ (cf_nodes cf) (j - 1) = Some nc /\ nc_preempt nc <> 0.
+  Proof.
+    intros H. unfold preempt_victim in H. mstep H as nc. destruct (nc_preempt nc =? 0) eqn:Epre; [apply ret_spec in H as [H _]; discriminate H|].
+    apply Z.eqb_neq in Epre.
+    mstep H as nd. mstep H as il. mstep H as ps. destruct ps as [|p0 pr]; [discriminate H|]. mstep H as x.
+    match type of H with (if ?b then _ else _) _ = _ => destruct b end; [|apply ret_spec in H as [H _]; discriminate H].
+    match type of H with match ?l with _ => _ end _ = _ => destruct l as [|c0 cr] eqn:Ef end; [discriminate H|].
+    apply ret_spec in H as [H ->]. injection H as ->. split; [reflexivity|]. split; [|eauto].
+    match goal with |- context [first_max ?k cr c0] => pose proof (first_max_in k cr c0) as Hin end.
+    rewrite <- Ef in Hin. apply filter_In in Hin as [Hin _].
+    destruct (omap_in _ _ _ _ Hl Hin) as (sv & Hsv & Esv). exists nd, sv. split; [exact Hn|]. split; [exact Hsv|].
+    destruct (sv_cust sv) as [c1|]; [|discriminate Esv]. destruct (find_ind c1 (inds s)); cbn in Esv; [|discriminate Esv]. injection Esv as Esv. rewrite <- Esv. reflexivity.
+  Qed.
+
+  Lemma wint_spec j i dest s s' : write_interruption_record cf j i dest s = Ok (tt, s') ->
+    exists x r, find_ind i (inds s) = Some x /\ r_id r = i_id x /\ r_type r = 1 /\ r_node r = j /\ r_arr r = i_arr x /\ r_exit r = Some (now s) /\ r_dest r = dest /\
+      inds s' = put_ind_l (x <| i_nrec := i_nrec x + 1 |>) (inds s) /\
+      nodes s' = nodes s /\ exit_ids s' = exit_ids s /\ exit_n s' = exit_n s /\ arr s' = arr s /\ log s' = log s ++ [r] /\ now s' = now s.
+  Proof.
+    intros H. unfold write_interruption_record in H. mstep H as t0. mstep H as x. mstep H as nc. mstep H as sid.
+    assert (s0 = s).
+    { destruct (nc_slotted nc); [apply ret_spec in E as [_ ->]; reflexivity|]. mstep E as sv. apply ret_spec in E as [_ ->]. reflexivity. }
+    subst s0. clear E. destruct (log_then_bump _ _ _ _ _ H) as (x0 & Hx0 & A). assert (x0 = x) by congruence. subst x0.
+    match type of A with context [log s ++ [?r0]] => exists x, r0 end. split; [exact Hf|]. repeat (split; [reflexivity|]). exact A.
+  Qed.
+
+  (* a continuation record for a customer that stays in node j *)
+  Lemma Jst_log_inplace s s' j v x x' r : Jst an h [] s -> at_node s j v -> find_ind v (inds s) = Some x -> r_id r = v ->
+    cont r -> r_node r = j -> r_arr r = i_arr x -> x' = x <| i_nrec := i_nrec x + 1 |> ->
+    inds s' = put_ind_l x' (inds s) -> nodes s' = nodes s -> exit_ids s' = exit_ids s -> exit_n s' = exit_n s -> arr s' = arr s -> log s' = log s ++ [r] ->
+    Jst an h [] s'.
+  Proof.
+    intros (A & B & C & D) Hat Hf Hrid Hco Hrn Hra Ex' Ei En Ee Een Ea El. pose proof (find_ind_id _ _ _ Hf) as Hidx.
+    assert (Hidx' : i_id x' = v) by (rewrite Ex'; exact Hidx).
+    assert (Hatn : forall k z, at_node s' k z <-> at_node s k z) by (intros k z; apply at_node_nodes; exact En).
+    destruct (j_node _ _ _ B j v Hat) as (x0 & Hx0 & Gnode & Glast & Gnrec & Gan). assert (x0 = x) by congruence. subst x0.
+    split; [|split; [|split]].
+    - eapply Conserve2.WFx2_shape; [|exact A]. unfold Conserve2.shp. rewrite En, Ee, Een, Ea, Ei. f_equal.
+      apply Conserve2.put_ind_l_ids_in. rewrite Hidx'. eapply Conserve2.find_ind_In; eauto.
+    - unfold JI in *. rewrite El, app_assoc. apply (JH_log2 an _ s s' r B); rewrite ?Hrid.
+      + exact (proj2 (WFx2_at_le s j v A Hat)).
+      + intros r1 Hr1. unfold lastok in Glast. rewrite Hr1 in Glast. split; [right; left; exact (proj1 Hco)|].
+        destruct Glast as [(G1 & G2 & G3)|(G1 & G2 & G3)]; [left|right].
+        * split; [exact G1|]. split; [rewrite Hrn; exact G2|rewrite Hra; exact G3].
+        * split; [exact G1|]. split; [rewrite Hrn; symmetry; exact G2|rewrite Hra; symmetry; exact G3].
+      + rewrite Hrn. exact Gan.
+      + intros Hex. apply (NoDup_app_disj _ _ v (WFx2_nodup _ _ A)); [eapply at_node_qids; eauto|apply in_or_app; left; exact Hex].
+      + intros k z; apply Hatn.
+      + exact Ee.
+      + rewrite Ea. lia.
+      + intros y Hy. rewrite Ei, find_put_other by congruence. reflexivity.
+      + intros k Hk. destruct (j_node _ _ _ B k v Hk) as (xk & Hxk & Gk & _). assert (xk = x) by congruence. subst xk.
+        assert (k = j) by congruence. subst k. exists x'. split; [rewrite Ei; rewrite <- Hidx' at 1; apply find_put_same|].
+        unfold good, last_of. rewrite (recs_of_snoc_same _ _ _ Hrid), last_opt_snoc. rewrite Ex'. cbn [i_node i_arr i_nrec].
+        split; [exact Gnode|]. split; [right; auto|]. split; [|intros E0; destruct (recs_of v (h ++ log s)); discriminate E0].
+        change (i_nrec (x <| i_nrec := i_nrec x + 1 |>)) with (i_nrec x + 1). rewrite Gnrec. unfold zlen. rewrite app_length, Nat2Z.inj_add. reflexivity.
+    - destruct C as [C1 C2]. constructor.
+      + intros d fr y He. apply (entry_nodes s s') in He; [|exact En]. destruct (C1 d fr y He) as (z & Hz & P1 & P2). rewrite Ei.
+        destruct (Z.eq_dec y v) as [->|Hne].
+        * assert (z = x) by congruence. subst z. exists x'. rewrite <- Hidx' at 1. rewrite find_put_same. rewrite Ex'. auto.
+        * exists z. rewrite find_put_other by congruence. auto.
+      + intros d nd Hn. rewrite (nodeZ_same s s' d En) in Hn. exact (C2 d nd Hn).
+    - exact (NoInt_same s s' En D).
+  Qed.
+
+  Lemma preempt_St f j v c s s' : St [] s -> Waits s j c ->
+    (exists nd sv, nodeZ s j = Some nd /\ In sv (n_servers nd) /\ sv_cust sv = Some v) -> slot_of cf j = false -> preempts cf = true ->
+    preempt cf (S f) j v c s = Ok (tt, s') -> St [] s'.
+  Proof.
+    intros [HJ HS] HW (ndv & svv & Hnv & Hsvv & Hcv) Hslot Hp H. rewrite preempt_S in H. unfold preempt_body in H.
+    mstep H as t0. mstep H as vx. mstep H as nc.
+    pose proof (scope2_nc _ _ _ Hsc Hc) as Hs. unfold scope_nc in Hs. apply andb_true_iff in Hs as [Hs _]. apply negb_true_iff in Hs. rewrite Hs in H.
+    (* the victim is in node j, served by the server that names it *)
+    destruct (si_own _ _ _ HS j ndv svv v Hnv Hslot Hsvv Hcv) as (x0 & Hx0 & Hsrv & Hnode & _). assert (x0 = vx) by congruence. subst x0. clear Hx0.
+    assert (Hatv : at_node s j v).
+    { destruct (WFx2_rec_place _ _ _ _ (proj1 HJ) Hf) as [[k Hk]|[]]. destruct (j_node _ _ _ (proj1 (proj2 HJ)) k v Hk) as (x0 & Hx0 & Gk & _).
+      assert (x0 = vx) by congruence. subst x0. assert (k = j) by congruence. subst k. exact Hk. }
+    assert (Hvc : v <> c) by (intros ->; destruct HW as (_ & xc & Hxc & Hxs); congruence).
+    pose proof (find_ind_id _ _ _ Hf) as Hidv.
+    (* original service time remembered *)
+    mstep H as u0. match type of E with put_ind ?x' _ = _ => set (v1 := x') in * end.
+    destruct (carry_put_ind cf [] s s0 tt vx v1 ltac:(change (i_id v1) with (i_id vx); rewrite Hidv; exact Hf) eq_refl (Jst_Ctx an h _ _ HJ) HS E) as (_ & S0 & ES0 & EJ0).
+    assert (J0 : Jst an h [] s0) by (eapply Jst_VJ; eauto).
+    destruct (put_ind_facts _ _ _ _ E) as (Ei0 & En0 & _). clear E.
+    assert (Hf0 : find_ind v (inds s0) = Some v1) by (rewrite Ei0; rewrite <- Hidv at 1; change (i_id vx) with (i_id v1); apply find_put_same).
+    assert (Hat0 : at_node s0 j v) by (apply (at_node_nodes s s0); assumption).
+    (* the interruption record *)
+    mstep H as u1. mstep E as u2.
+    destruct (wint_spec j v None s0 s2 E0) as (xw & r & Hxw & R1 & R2 & R3 & R4 & R5 & R6 & Ei2 & En2 & Ee2 & Een2 & Ea2 & El2 & Et2).
+    assert (xw = v1) by congruence. subst xw. clear Hxw.
+    assert (J2 : Jst an h [] s2).
+    { apply (Jst_log_inplace s0 s2 j v v1 _ r J0 Hat0 Hf0 ltac:(rewrite R1; exact Hidv) (conj R2 R6) R3 R4 eq_refl Ei2 En2 Ee2 Een2 Ea2 El2). }
+    assert (S2 : SrvInv cf [] s2) by (exact (proj1 (SrvInv_keepS cf [] _ s0 tt s2 (ks_write_interruption_record cf j v None) (WFx2_Idx _ _ (proj1 J0)) S0 E0))).
+    set (v2 := v1 <| i_nrec := i_nrec v1 + 1 |>) in *.
+    assert (Hf2 : find_ind v (inds s2) = Some v2) by (rewrite Ei2; rewrite <- Hidv at 1; change (i_id vx) with (i_id v2); apply find_put_same).
+    clear E0 J0 S0.
+    (* its service is suspended *)
+    mstep E as u3. destruct (upd_ind_full _ _ _ _ _ E0) as (z & Hz & Ei3 & En3 & _). assert (z = v2) by congruence. subst z.
+    match type of Ei3 with _ = put_ind_l ?x' _ => set (v3 := x') in * end.
+    destruct (carry_put_ind cf [] s2 s3 tt v2 v3 ltac:(change (i_id v3) with (i_id vx); rewrite Hidv; exact Hf2) eq_refl (Jst_Ctx an h _ _ J2) S2) as (_ & S3 & ES3 & EJ3).
+    { unfold upd_ind in E0. mstep E0 as zz. assert (zz = v2) by congruence. subst zz. exact E0. }
+    assert (J3 : Jst an h [] s3) by (eapply Jst_VJ; eauto).
+    assert (Hf3 : find_ind v (inds s3) = Some v3) by (rewrite Ei3; rewrite <- Hidv at 1; change (i_id vx) with (i_id v3); apply find_put_same).
+    clear E0 J2 S2.
+    (* it gives up its server *)
+    mstep E as sid. mstep E as u4.
+    assert (Hnb : i_blocked v3 = false).
+    { destruct (i_blocked v3) eqn:Eb; [|reflexivity]. exfalso.
+      pose proof (si_nb _ _ _ S3 Hp v v3 Hf3). congruence. }
+    assert (Hsrv3 : i_server v3 = Some sid) by (change (i_server v3) with (i_server vx); congruence).
+    destruct (srv_detatch cf [] j sid v s3 s4 v3 (WFx2_Idx _ _ (proj1 J3)) S3 (or_intror Hnb) Hf3 Hnode Hsrv3 E0) as (S4 & O4 & _ & Hfo4).
+    destruct (carryJ [] _ s3 _ s4 (kv_T _ _ _ _ _ (kj_detatch_server j sid v)) (Jst_Ctx an h _ _ J3) E0) as (_ & EJ4).
+    assert (J4 : Jst an h [] s4) by (eapply Jst_VJ; eauto). clear E0.
+    destruct (St_carryB [] (decide_class_change cf j v) s4 tt s1 (kb_decide_class_change cf j v) (conj J4 S4) E) as (St1 & EJ1 & ES1).
+    clear E. mstep H as sid2.
+    (* the pre-emptor still waits in node j *)
+    assert (HW1 : Waits s1 j c).
+    { destruct HW as ((ndc & Hnc & Hinc) & xc & Hxc & Hxs). split.
+      - apply (VJ_at s1 s4 j c (eq_sym EJ1)). apply (VJ_at s4 s3 j c (eq_sym EJ4)). apply (at_node_nodes s2 s3); [exact En3|].
+        apply (at_node_nodes s0 s2); [exact En2|]. apply (at_node_nodes s s0); [exact En0|]. exists ndc. auto.
+      - assert (Hc3 : find_ind c (inds s3) = Some xc).
+        { rewrite Ei3, find_put_other by (change (i_id v3) with (i_id vx); congruence). rewrite Ei2, find_put_other by (change (i_id v2) with (i_id vx); congruence).
+          rewrite Ei0, find_put_other by (change (i_id v1) with (i_id vx); congruence). exact Hxc. }
+        assert (Hc4 : find_ind c (inds s4) = Some xc) by (rewrite Hfo4 by congruence; exact Hc3).
+        destruct (rec_VJS s4 s1 c xc EJ1 ES1 Hc4) as (xc1 & Hxc1 & _ & PS1). exists xc1. split; [exact Hxc1|].
+        unfold fiS in PS1. injection PS1 as PS1 _ _. congruence. }
+    destruct (srv_start_preemptor cf [] j c sid2 s1 s' (St_Ctx _ _ St1) (proj2 St1) HW1 H) as (_ & S5 & EJ5 & _).
+    split; [eapply Jst_VJ; [exact EJ5|exact (proj1 St1)]|exact S5].
+  Qed.
+
   (* ---------- Node.accept: the customer in flight lands in node j; its arrival date there is the clock ---------- *)
   Lemma accept_St f j i s s' : St [i] s -> NoEntry s i -> NoOwner cf i s ->
     (forall x, find_ind i (inds s) = Some x ->
        lastok j (Some (now s)) (last_of i (h ++ log s)) /\ i_nrec x = zlen (recs_of i (h ++ log s)) /\
        (recs_of i (h ++ log s) = [] -> an i = Some j)) ->
-    accept cf (S f) j i s = Ok (tt, s') -> St [] s' /\ now s' = now s /\ log s' = log s.
+    accept cf (S f) j i s = Ok (tt, s') -> St [] s'.
   Proof.
     intros HSt HN HO Hgood H. rewrite accept_S in H. unfold accept_body in H.
     mstep H as x. mstep H as nd. destruct (Hgood x Hf) as (Hlast & Hnrec & Han). clear Hgood.
@@ -1941,7 +2272,8 @@ Section Walk.
     { apply (SrvInv_put_ind cf [i] [] s s0 i x x1 HS Hf Hidx En1 Ei1).
       - intros y Hy [Hin|[]]. congruence.
       - intros j0 n0 sv A1 A2 A3 A4. exfalso. exact (HO j0 n0 sv A1 A2 A3 A4).
-      - intros _ Hb. discriminate Hb. }
+      - intros _ Hb. discriminate Hb.
+      - intros _. reflexivity. }
     clear E.
     (* it joins the queue of its priority class *)
     mstep H as qs. destruct (nthZ (n_queues nd) (i_prio x)) as [q|] eqn:Eq; [injection Hl as Hqs|discriminate Hl].
@@ -2016,16 +2348,24 @@ Section Walk.
         apply (Waits_same s4 s5 j c B3 B4). split; assumption. }
     destruct Hc6 as (HC6 & S6 & EJ6 & HW6). clear E HC3 S3.
     assert (EJ26 : VJ s5 = VJ s2) by congruence.
-    assert (Hend : forall s6, VJ s6 = VJ s5 -> SrvInv cf [] s6 -> St [] s6 /\ now s6 = now s /\ log s6 = log s).
-    { intros s6 EJ HS6. assert (EJ' : VJ s6 = VJ s2) by congruence. destruct (VJ_glob _ _ EJ') as (_ & _ & _ & Q4 & Q5).
-      split; [split; [eapply Jst_VJ; eauto|exact HS6]|]. split; congruence. }
+    assert (Hend : forall s6, VJ s6 = VJ s5 -> SrvInv cf [] s6 -> St [] s6).
+    { intros s6 EJ HS6. assert (EJ' : VJ s6 = VJ s2) by congruence. split; [eapply Jst_VJ; eauto|exact HS6]. }
     destruct cand as [c|]; [|apply ret_spec in H as [_ ->]; apply Hend; [reflexivity|exact S6]].
     destruct (nd_inf nd2) eqn:Einf.
     - destruct (srv_start_fresh cf [] j c None true s5 s' HC6 S6 ltac:(intros Hx; exfalso; apply Hx; reflexivity) H) as (_ & HS7 & EJ7 & _). apply Hend; assumption.
     - mstep H as cx. destruct (find_free_server_for (nc_spf nc) (i_cls cx) (n_servers nd2)) as [sv|].
       + destruct (srv_start_fresh cf [] j c (Some (sv_id sv)) true s5 s' HC6 S6 ltac:(intros _; exact (HW6 eq_refl c eq_refl)) H) as (_ & HS7 & EJ7 & _). apply Hend; assumption.
       + destruct (0 <? numo (n_c nd2)); [|apply ret_spec in H as [_ ->]; apply Hend; [reflexivity|exact S6]].
-        mstep H as v. destruct (preempt_victim_none cf j c s5 v s6 Hsc E) as [-> ->]. apply ret_spec in H as [_ ->]. apply Hend; [reflexivity|exact S6].
+        mstep H as v. pose proof (preempt_victim_same j c v s5 s6 E) as Es6. subst s6.
+        destruct v as [vi|]; [|apply ret_spec in H as [_ ->]; apply Hend; [reflexivity|exact S6]].
+        destruct (preempt_victim_spec j c vi s5 s5 E) as (_ & Hvic & nc1 & Hc1 & Hpre1).
+        destruct f as [|f0]; [discriminate H|].
+        assert (Hp : preempts cf = true).
+        { unfold preempts. apply existsb_exists. exists nc1. split; [eapply nthZ_In; eauto|]. apply negb_true_iff. apply Z.eqb_neq. exact Hpre1. }
+        assert (Hslot : slot_of cf j = false).
+        { unfold slot_of. rewrite Hc1. pose proof (scope2_nc _ _ _ Hsc Hc1) as Hs. unfold scope_nc in Hs. apply andb_true_iff in Hs as [_ Hs].
+          unfold nc_slotted. destruct (nc_srv nc1); [reflexivity|reflexivity|]. apply andb_true_iff in Hs as [_ Hs]. apply Z.eqb_eq in Hs. contradiction. }
+        apply (preempt_St f0 j vi c s5 s' (Hend s5 eq_refl S6) (HW6 eq_refl c eq_refl) Hvic Hslot Hp H).
   Qed.
 
   (* ---------- the service record ---------- *)
@@ -2040,8 +2380,6 @@ Section Walk.
     subst s0. clear E. destruct (log_then_bump _ _ _ _ _ H) as (x0 & Hx0 & A). assert (x0 = x) by congruence. subst x0.
     match type of A with context [log s ++ [?r0]] => exists x, r0 end. split; [exact Hf|]. repeat (split; [reflexivity|]). exact A.
   Qed.
-
-  Definition closing_b (r : rec) : Prop := closing r.
 
   (* ---------- release (a service is over) and the unblocking cascade ---------- *)
   Lemma core_St : forall f,
@@ -2124,7 +2462,7 @@ Section Walk.
       assert (F3 : Jst an h [i] s3 /\ SrvInv cf [i] s3 /\ NoOwner cf i s3 /\ VJ s3 = VJ s2).
       { destruct (negb (nd_inf nd) && negb (nc_slotted nc)) eqn:Ec.
         - mstep E as xr. assert (xr = x2) by congruence. subst xr. mstep E as sid. mstep E as u3. apply ret_spec in E as [_ ->].
-          destruct (srv_detatch cf [i] j sid i s2 s4 x2 (WFx2_Idx _ _ (proj1 J2)) S2 (or_introl eq_refl) Hf2 Gnode Hl E0) as (A1 & A2 & _).
+          destruct (srv_detatch cf [i] j sid i s2 s4 x2 (WFx2_Idx _ _ (proj1 J2)) S2 (or_introl (or_introl eq_refl)) Hf2 Gnode Hl E0) as (A1 & A2 & _ & _).
           destruct (carryJ [i] _ s2 _ s4 (kv_T _ _ _ _ _ (kj_detatch_server j sid i)) (Jst_Ctx an h _ _ J2) E0) as (_ & EJ).
           split; [eapply Jst_VJ; eauto|]. auto.
         - apply ret_spec in E as [_ ->]. split; [exact J2|]. split; [exact S2|]. split; [|reflexivity].
@@ -2147,9 +2485,10 @@ Section Walk.
         destruct (carryJ_put_ind [i] s3 s4 tt y (y <| i_server := None |>) ltac:(rewrite Hid4; exact Hy) eq_refl (Jst_Ctx an h _ _ J3)) as (_ & EJ4).
         { unfold upd_ind in E. mstep E as yy. assert (yy = y) by congruence. subst yy. exact E. }
         split; [eapply Jst_VJ; eauto|]. split; [|split; [exact (NoOwner_nodes cf i s3 s4 En4 O3)|exact EJ4]].
-        apply (SrvInv_put_ind cf [i] [i] s3 s4 i y (y <| i_server := None |>) S3 Hy Hid4 En4 Ei4); [auto| |].
+        apply (SrvInv_put_ind cf [i] [i] s3 s4 i y (y <| i_server := None |>) S3 Hy Hid4 En4 Ei4); [auto| | |].
         - intros j0 n0 sv A1 A2 A3 A4. exfalso. exact (O3 j0 n0 sv A1 A2 A3 A4).
-        - intros Hx. exfalso. apply Hx. left. reflexivity. }
+        - intros Hx. exfalso. apply Hx. left. reflexivity.
+        - intros Hp. exact (si_nb _ _ _ S3 Hp i y Hy). }
       destruct F4 as (J4 & S4 & O4 & EJ4). clear E J3 S3 O3.
       assert (N4 : NoEntry s4 i) by (eapply NoEntry_VJ; eauto).
       (* its attributes are reset *)
@@ -2189,7 +2528,7 @@ Section Walk.
       { destruct (d =? -1) eqn:Ed.
         - apply Z.eqb_eq in Ed. destruct (exit_accept_St i true s6 s7 (conj J6 S6) N6 O6) as (A1 & _); [|exact E|exact A1].
           rewrite Hlog6. exists r. split; [exact Hlast2|]. left. split; [exact Hcl|]. rewrite R6. cbn. rewrite Hdest, Ed. reflexivity.
-        - destruct f as [|f0]; [discriminate E|]. destruct (accept_St f0 d i s6 s7 (conj J6 S6) N6 O6) as (A1 & _); [|exact E|exact A1].
+        - destruct f as [|f0]; [discriminate E|]. apply (accept_St f0 d i s6 s7 (conj J6 S6) N6 O6); [|exact E].
           intros y Hy. rewrite Hlog6, Hlast2, Hrecs2. split; [|split].
           + left. split; [exact Hcl|]. split; [rewrite R6; exact Hdest|]. rewrite R5, Hnow6. reflexivity.
           + rewrite (Hf6 y Hy), Gnrec. unfold zlen. rewrite app_length, Nat2Z.inj_add. reflexivity.
@@ -2296,7 +2635,7 @@ Section Walk.
        lastok j (Some (now s)) (last_of i (h ++ log s)) /\ i_nrec x = zlen (recs_of i (h ++ log s)) /\
        (recs_of i (h ++ log s) = [] -> an i = Some j)) ->
     accept cf f j i s = Ok (tt, s') -> St [] s'.
-  Proof. intros A B C D H. destruct f as [|f]; [discriminate H|]. exact (proj1 (accept_St f j i s s' A B C D H)). Qed.
+  Proof. intros A B C D H. destruct f as [|f]; [discriminate H|]. exact (accept_St f j i s s' A B C D H). Qed.
 
   (* the record of a customer is rewritten without touching where it is, when it came and how many records it has;
      the customer is in no blocked queue *)
@@ -2333,16 +2672,11 @@ Section Walk.
     - exfalso. rewrite (nodeZ_same s s' j Hm) in Hn'. assert (nd' = nd) by congruence. subst nd'. exact (find_server_some _ _ _ Hin Hid Efs).
   Qed.
 
-  (* the record of customer i keeps its views through steps that neither view sees *)
-  Lemma rec_VJS s s' i y : VJ s' = VJ s -> VS s' = VS s -> find_ind i (inds s) = Some y ->
-    exists y', find_ind i (inds s') = Some y' /\ fiJ y' = fiJ y /\ fiS y' = fiS y.
+  Lemma has_space_pre d s b s' : preempts cf = true -> has_space cf d s = Ok (b, s') -> b = true.
   Proof.
-    intros EJ ES Hf. pose proof (VJ_find s s' i EJ) as Hv. rewrite Hf in Hv. destruct (find_ind i (inds s')) as [y'|] eqn:E; [|discriminate Hv].
-    cbn [option_map] in Hv. exists y'. split; [reflexivity|]. split; [congruence|].
-    pose proof (VW_ind fnS fiS fgS s s' i ES) as Hw. rewrite Hf, E in Hw. cbn [option_map] in Hw. congruence.
+    intros Hp H. unfold has_space in H. destruct (d =? -1); [apply ret_spec in H as [-> _]; reflexivity|].
+    mstep H as dn. mstep H as dc. apply ret_spec in H as [-> _]. rewrite (proj1 (scope2_pre cf Hsc Hp) d dc Hc). reflexivity.
   Qed.
-  Lemma unblocked_NoEntry s i y : Lq s -> find_ind i (inds s) = Some y -> i_blocked y = false -> NoEntry s i.
-  Proof. intros HL Hf Hb d fr He. destruct (l_ent _ HL d fr i He) as (x & Hx & _ & Hbx). congruence. Qed.
 
   (* ---------- finish_service ---------- *)
   Lemma finish_service_St j s s' : St [] s ->
@@ -2385,8 +2719,8 @@ Section Walk.
         split; [eapply Jst_VJ; eauto|]. split; [exact A1|]. split; [exact EJ|]. split; [rewrite Ei5; exact Hy4|]. split.
         + intros j0 n0 sv B1 B2 B3 B4. destruct (si_own _ _ _ A1 j0 n0 sv i B1 B2 B3 B4) as (z & Hz & P1 & P2 & _).
           rewrite Ei5, Hy4 in Hz. injection Hz as <-. assert (j0 = j) by (change (i_node y4) with (i_node y) in P2; congruence). subst j0.
-          apply (set_next_end_post j sid None s3 s4 (WFx2_Idx _ _ (proj1 J4)) S4 E n0 sv B1 B3). change (i_server y4) with (i_server y) in P1. congruence.
-        + intros Hx. change (i_server y4) with (i_server y) in Hx. congruence.
+          apply (set_next_end_post j sid None s3 s4 (WFx2_Idx _ _ (proj1 J4)) S4 E n0 sv B1 B3). change (i_server y4) with (i_server y) in *. congruence.
+        + intros Hx. change (i_server y4) with (i_server y) in *. congruence.
       - apply ret_spec in E as [_ ->]. split; [exact J4|]. split; [exact S4|]. split; [reflexivity|]. split; [exact Hy4|].
         assert (Hnd3 : exists n3, nodeZ s3 j = Some n3 /\ nd_inf n3 = nd_inf nd).
         { assert (ES : VS s3 = VS s) by (rewrite <- ES03; apply (VS_put_ind s2 s3 y y4); [change (i_id y4) with (i_id y); rewrite Hidy; exact Hy|reflexivity|exact Ei4|exact En4]).
@@ -2404,30 +2738,32 @@ Section Walk.
     destruct F5 as (J5 & S5 & EJ5 & Hy5 & Hown5 & Hblk5). clear E J4 S4.
     assert (N5 : NoEntry s4 i) by (eapply NoEntry_VJ; eauto).
     (* is there room at the destination? *)
-    pose proof (Jst_Ctx an h _ _ J5) as HC5. bstep H HC5 S5 as ES6 EJ6. rename a into space.
+    pose proof (Jst_Ctx an h _ _ J5) as HC5. mstep H as space. rename E into Hsp.
+    destruct (carryB cf [] _ s4 space s5 (kb_has_space cf d) HC5 S5 Hsp) as (HC5' & S5' & ES6 & EJ6).
+    clear HC5 S5. rename HC5' into HC5. rename S5' into S5.
     assert (J6 : Jst an h [] s5) by (eapply Jst_VJ; eauto).
     destruct (rec_VJS s4 s5 i y4 EJ6 ES6 Hy5) as (y6 & Hy6 & PJ6 & PS6).
     assert (N6 : NoEntry s5 i) by (eapply NoEntry_VJ; eauto).
     assert (Hd6 : i_dest y6 = Some d) by (unfold fiJ in PJ6; injection PJ6 as _ _ _ PJ6 _; exact PJ6).
     destruct space.
-    - mstep H as fl0. apply (release_St fl0 j i d s5 s' (conj J6 S5) N6); [eauto|exact H].
+    - mstep H as fl0. apply (release_St _ j i d s5 s' (conj J6 S5) N6 ltac:(eauto) H).
     - (* blocked *)
       unfold block_individual in H. mstep H as u2.
       destruct (upd_ind_full _ _ _ _ _ E) as (z & Hz & Ei7 & En7 & Ea7 & El7 & Et7 & Ee7 & Een7). clear E.
       assert (z = y6) by congruence. subst z. set (y7 := y6 <| i_blocked := true |>) in *. pose proof (find_ind_id _ _ _ Hy6) as Hid6.
       assert (J7 : Jst an h [] s6) by (apply (Jst_put_same [] s5 s6 i y6 y7 J6 N6 Hy6 Hid6 eq_refl Ei7 En7 Ee7 Een7 Ea7 El7)).
       assert (S7 : SrvInv cf [] s6).
-      { apply (SrvInv_put_ind cf [] [] s5 s6 i y6 y7 S5 Hy6 Hid6 En7 Ei7); [auto| |].
+      { apply (SrvInv_put_ind cf [] [] s5 s6 i y6 y7 S5 Hy6 Hid6 En7 Ei7); [auto| | |intros Hp; exfalso; pose proof (has_space_pre d s4 false s5 Hp Hsp); discriminate].
         - intros j0 n0 sv B1 B2 B3 B4. destruct (si_own _ _ _ S5 j0 n0 sv i B1 B2 B3 B4) as (z & Hz' & P1 & P2 & _).
           assert (z = y6) by congruence. subst z. split; [exact P1|]. split; [exact P2|]. intros Hne. exfalso. apply Hne.
           (* the server is seen from s4 *)
           destruct (VS_node s4 s5 j0 n0 ES6 B1) as (n4 & Hn4 & _ & E1 & _ & _). destruct (srv3_in _ _ _ E1 B3) as (sv4 & Hsv4 & E4).
           unfold srv3 in E4. injection E4 as E41 E42 E43. rewrite <- E43. apply (Hown5 j0 n4 sv4 Hn4 B2 Hsv4). congruence.
         - intros _ _ Hsv. change (i_server y7) with (i_server y6) in Hsv.
-          assert (Hsv4 : i_server y4 = None) by (unfold fiS in PS6; injection PS6 as PS6 _ _; congruence).
+          assert (Hsv4 : i_server y4 = None) by (change (i_server y = None); unfold fiS in PS6; injection PS6 as Q1 _ _; congruence).
           destruct (Hblk5 Hsv4) as (n4 & Hn4 & Hor). pose proof (VW_node fnS fiS fgS s4 s5 j ES6) as Hv. rewrite Hn4 in Hv.
           destruct (nodeZ s5 j) as [n5|] eqn:En5; [|discriminate Hv]. cbn in Hv. unfold nv, fnS in Hv. injection Hv as _ _ _ Hv.
-          exists j, n5. split; [|split; [reflexivity|rewrite Hv; exact Hor]].
+          exists j, n5. split; [|split; [exact En5|rewrite Hv; exact Hor]].
           change (i_node y7) with (i_node y6). unfold fiS in PS6. injection PS6 as _ PS6 _. rewrite PS6. exact Hnode. }
       assert (Hy7 : find_ind i (inds s6) = Some y7) by (rewrite Ei7; rewrite <- Hid6 at 1; change (i_id y6) with (i_id y7); apply find_put_same).
       assert (N7 : NoEntry s6 i) by (intros d0 fr He; apply (entry_nodes s5 s6) in He; [exact (N6 d0 fr He)|exact En7]).
@@ -2461,4 +2797,1084 @@ Section Walk.
         * intros k n Hnn. rewrite HZ8 in Hnn. destruct (Z.eqb_spec k d) as [->|Hne]; [injection Hnn as <-; exact (D7 d dn Hn0)|exact (D7 k n Hnn)].
       + apply (SrvInv_VS cf [] s6 s' (VS_put_node s6 s' dn dn1 Hnd eq_refl eq_refl En8 Ei8)). exact S7.
   Qed.
+
+  (* ---------- a customer is taken out of its queue ---------- *)
+  Lemma leave_queue j i s s0 nd nd1 x p q q' : St [] s -> NoEntry s i -> nodeZ s j = Some nd -> find_ind i (inds s) = Some x ->
+    nthZ (n_queues nd) p = Some q -> remove_first i q = Some q' ->
+    n_id nd1 = n_id nd -> n_pop nd1 = n_pop nd - 1 -> n_queues nd1 = updZ (n_queues nd) p q' -> n_bq nd1 = n_bq nd -> n_nint nd1 = n_nint nd -> fnS nd1 = fnS nd ->
+    put_node nd1 s = Ok (tt, s0) ->
+    St [i] s0 /\ NoEntry s0 i /\ inds s0 = inds s /\ log s0 = log s /\ now s0 = now s /\
+    i_node x = Some j /\ lastok j (i_arr x) (last_of i (h ++ log s)) /\ i_nrec x = zlen (recs_of i (h ++ log s)) /\ (recs_of i (h ++ log s) = [] -> an i = Some j).
+  Proof.
+    intros [HJ HS] HN0 Hn Hf Hq Hq' Eid Epop Eqs Ebq Enint EfS E.
+    pose proof (WFx2_Idx _ _ (proj1 HJ)) as HI. pose proof (HI _ _ Hn) as Hidn.
+    assert (Hiq : In i q) by (apply (Permutation_in _ (Permutation_sym (Conserve2.remove_first_perm _ _ _ Hq'))); left; reflexivity).
+    assert (Hat : at_node s j i).
+    { exists nd. split; [exact Hn|]. unfold all_individuals. apply in_concat. exists q. split; [|exact Hiq]. eapply nthZ_In; eauto. }
+    destruct (j_node _ _ _ (proj1 (proj2 HJ)) j i Hat) as (x0 & Hx0 & Gnode & Glast & Gnrec & Gan).
+    assert (x0 = x) by congruence. subst x0. clear Hx0.
+    destruct (put_node_facts _ _ _ _ E) as (Es0 & Ei0 & Ea0 & El0 & Et0 & Ee0 & Een0).
+    assert (En0 : nodes s0 = updZ (nodes s) (n_id nd1 - 1) nd1) by (rewrite Es0; reflexivity).
+    assert (Hn' : nodeZ s (n_id nd1) = Some nd) by (rewrite Eid, Hidn; exact Hn).
+    assert (HZ0 : forall k, nodeZ s0 k = if k =? j then Some nd1 else nodeZ s k).
+    { intros k. rewrite (nodeZ_upd s s0 nd1 nd k En0 Hn'). rewrite Eid, Hidn. reflexivity. }
+    assert (W0 : Conserve2.WFx2 [i] s0).
+    { assert (Hok : Conserve2.okn (Conserve2.shp s) nd) by (apply (Conserve2.get_node_okn j); [exact (Conserve2.WFx2_idx _ _ (proj1 HJ))|exact Hn]).
+      apply (Conserve2.trK_put_node_rm (fun sh => Conserve2.okn sh nd) [] i nd1) with (s := s) (a := tt); [|exact Hok|exact (proj1 HJ)|exact E].
+      intros sh Hsh. exists nd, p, q, q'. repeat split; assumption. }
+    assert (Hsub : forall k y, at_node s0 k y -> at_node s k y).
+    { intros k y (n & Hnn & Hin). rewrite HZ0 in Hnn. destruct (Z.eqb_spec k j) as [->|Hne]; [|exists n; auto].
+      injection Hnn as <-. exists nd. split; [exact Hn|]. unfold all_individuals in *. rewrite Eqs in Hin.
+      destruct (Conserve2.nthZ_nat _ _ _ Hq) as (kp & Hkp & Hqk). rewrite Hkp, Conserve2.updZ_nat in Hin.
+      apply (Permutation_in _ (Conserve2.concat_upd_rm (n_queues nd) kp q q' i Hqk (Conserve2.remove_first_perm _ _ _ Hq'))). right. exact Hin. }
+    split; [split|].
+    - destruct HJ as (A & B & C & D). split; [exact W0|]. split; [|split].
+      + unfold JI in *. rewrite El0. apply (JH_mono an _ s s0 B Hsub); [intros k y _; rewrite Ei0; reflexivity|exact Ee0|rewrite Ea0; lia].
+      + destruct C as [C1 C2]. constructor.
+        * intros d0 fr y (n & Hnn & Hin). rewrite HZ0 in Hnn. rewrite Ei0. apply (C1 d0 fr y).
+          destruct (Z.eqb_spec d0 j) as [->|Hne]; [injection Hnn as <-; exists nd; rewrite <- Ebq; auto|exists n; auto].
+        * intros d0 n Hnn. rewrite HZ0 in Hnn. destruct (Z.eqb_spec d0 j) as [->|Hne]; [injection Hnn as <-; rewrite Ebq; exact (C2 j nd Hn)|exact (C2 d0 n Hnn)].
+      + intros k n Hnn. rewrite HZ0 in Hnn. destruct (Z.eqb_spec k j) as [->|Hne]; [injection Hnn as <-; rewrite Enint; exact (D j nd Hn)|exact (D k n Hnn)].
+    - apply (SrvInv_VS cf [i] s s0 (VS_put_node s s0 nd nd1 Hn' EfS Eid En0 Ei0)). eapply SrvInv_fl_weaken; [|exact HS]. intros y [].
+    - split; [|auto 10]. intros d0 fr (n & Hnn & Hin). rewrite HZ0 in Hnn. apply (HN0 d0 fr).
+      destruct (Z.eqb_spec d0 j) as [->|Hne]; [injection Hnn as <-; exists nd; rewrite <- Ebq; auto|exists n; auto].
+  Qed.
+
+  (* ---------- the renege record ---------- *)
+  Lemma wrr_spec j i s s' : write_reneging_record j i s = Ok (tt, s') ->
+    exists x r, find_ind i (inds s) = Some x /\ r_id r = i_id x /\ r_type r = 2 /\ r_node r = j /\ r_arr r = i_arr x /\ r_exit r = i_exit x /\ r_dest r = i_dest x /\
+      inds s' = put_ind_l (x <| i_nrec := i_nrec x + 1 |>) (inds s) /\
+      nodes s' = nodes s /\ exit_ids s' = exit_ids s /\ exit_n s' = exit_n s /\ arr s' = arr s /\ log s' = log s ++ [r] /\ now s' = now s.
+  Proof.
+    intros H. unfold write_reneging_record in H. mstep H as x.
+    destruct (log_then_bump _ _ _ _ _ H) as (x0 & Hx0 & A). assert (x0 = x) by congruence. subst x0.
+    match type of A with context [log s ++ [?r0]] => exists x, r0 end. split; [exact Hf|]. repeat (split; [reflexivity|]). exact A.
+  Qed.
+
+  (* ---------- renege ---------- *)
+  Lemma renege_St j s s' : St [] s ->
+    (forall nd i x, nodeZ s j = Some nd -> In i (n_next_inds nd) -> find_ind i (inds s) = Some x -> i_blocked x = false /\ i_server x = None) ->
+    renege cf j s = Ok (tt, s') -> St [] s'.
+  Proof.
+    intros [HJ HS] Hpick H. unfold renege in H. mstep H as t0. mstep H as nd.
+    pose proof (Jst_Ctx an h _ _ HJ) as HC.
+    mstep H as i. pose proof (decide_between_spec _ _ _ _ E) as Hi.
+    destruct (carryB cf [] _ s _ s0 (kb_decide_between _) HC HS E) as (HC1 & HS1 & ES1 & EJ1). clear E.
+    bstep H HC1 HS1 as ES2 EJ2. bstep H HC1 HS1 as ES3 EJ3. rename a into d.
+    assert (EJ03 : VJ s2 = VJ s) by congruence. assert (ES03 : VS s2 = VS s) by congruence.
+    assert (J3 : Jst an h [] s2) by (eapply Jst_VJ; eauto).
+    mstep H as x. mstep H as nd1. mstep H as q. rename Hl into Hq. mstep H as q'. rename Hl into Hq'.
+    assert (Hx0 : exists y0, find_ind i (inds s) = Some y0 /\ fiJ x = fiJ y0 /\ fiS x = fiS y0).
+    { destruct (find_ind i (inds s)) as [y0|] eqn:E0.
+      - destruct (rec_VJS s s2 i y0 EJ03 ES03 E0) as (y' & Hy' & P1 & P2). assert (y' = x) by congruence. subst y'. eauto.
+      - exfalso. pose proof (VJ_find s s2 i EJ03) as Hv. rewrite E0, Hf in Hv. discriminate Hv. }
+    destruct Hx0 as (y0 & Hy0 & PJ & PS). destruct (Hpick nd i y0 Hn Hi Hy0) as [Hb0 Hsv0].
+    assert (Hb : i_blocked x = false) by (unfold fiS in PS; injection PS as _ _ PS; congruence).
+    assert (Hsv : i_server x = None) by (unfold fiS in PS; injection PS as PS _ _; congruence).
+    assert (N3 : NoEntry s2 i) by (eapply unblocked_NoEntry; [exact (proj1 (proj2 (proj2 J3)))|exact Hf|exact Hb]).
+    (* the customer leaves its queue *)
+    mstep H as u0. match type of E with put_node ?n _ = _ => set (nd2 := n) in * end.
+    destruct (leave_queue j i s2 s3 nd1 nd2 x (i_pprio x) q q' (conj J3 HS1) N3 Hn0 Hf Hq Hq' eq_refl eq_refl eq_refl eq_refl eq_refl eq_refl E)
+      as ([J4 S4] & N4 & Ei4 & El4 & Et4 & Gnode & Glast & Gnrec & Gan).
+    clear E HC1 HS1 J3 N3.
+    pose proof (Jst_Ctx an h _ _ J4) as HC4. bstep H HC4 S4 as ES5 EJ5.
+    assert (J5 : Jst an h [i] s4) by (eapply Jst_VJ; eauto).
+    assert (N5 : NoEntry s4 i) by (eapply NoEntry_VJ; eauto).
+    assert (Hf4 : find_ind i (inds s3) = Some x) by (rewrite Ei4; exact Hf).
+    destruct (rec_VJS s3 s4 i x EJ5 ES5 Hf4) as (x5 & Hx5 & PJ5 & PS5).
+    (* exit date and destination *)
+    mstep H as u1. destruct (upd_ind_full _ _ _ _ _ E) as (z & Hz & Ei6 & En6 & Ea6 & El6 & Et6 & Ee6 & Een6). clear E.
+    assert (z = x5) by congruence. subst z.
+    match type of Ei6 with _ = put_ind_l ?x' _ => set (x6 := x') in * end.
+    pose proof (find_ind_id _ _ _ Hx5) as Hid5.
+    assert (J6 : Jst an h [i] s5) by (apply (Jst_put_away an h [i] s4 s5 i x5 x6 J5 (or_introl eq_refl) N5 Hx5 Hid5 Ei6 En6 Ee6 Een6 Ea6 El6)).
+    assert (S6 : SrvInv cf [i] s5).
+    { apply (SrvInv_VS cf [i] s4 s5); [|exact S4]. apply (VS_put_ind s4 s5 x5 x6); [change (i_id x6) with (i_id x5); rewrite Hid5; exact Hx5|reflexivity|exact Ei6|exact En6]. }
+    assert (Hx6 : find_ind i (inds s5) = Some x6) by (rewrite Ei6; rewrite <- Hid5 at 1; change (i_id x5) with (i_id x6); apply find_put_same).
+    assert (N6 : NoEntry s5 i) by (intros d0 fr He; apply (entry_nodes s4 s5) in He; [exact (N5 d0 fr He)|exact En6]).
+    clear J4 J5 S4 N4 N5 HC4.
+    (* the record *)
+    mstep H as u2.
+    destruct (wrr_spec j i s5 s6 E) as (xw & r & Hxw & R1 & R2 & R3 & R4 & R5 & R6 & Ei7 & En7 & Ee7 & Een7 & Ea7 & El7 & Et7).
+    assert (xw = x6) by congruence. subst xw. clear Hxw.
+    set (x7 := x6 <| i_nrec := i_nrec x6 + 1 |>) in *.
+    assert (Hrid : r_id r = i) by (rewrite R1; exact Hid5).
+    assert (Hlog5 : log s5 = log s2) by (destruct (VJ_glob _ _ EJ5) as (_ & _ & _ & _ & Q5); congruence).
+    assert (Hnow5 : now s5 = now s) by (destruct (VJ_glob _ _ EJ5) as (_ & _ & _ & Q4 & _); destruct (VJ_glob _ _ EJ03) as (_ & _ & _ & Q4' & _); congruence).
+    assert (Harr : i_arr x5 = i_arr x) by (unfold fiJ in PJ5; injection PJ5 as _ PJ5 _ _ _; exact PJ5).
+    assert (Hcl : closing r) by (right; left; exact R2).
+    assert (J7 : Jst an h [i] s6).
+    { apply (Jst_log_away an h [i] s5 s6 i x6 x7 r J6 (or_introl eq_refl) N6 Hx6 Hid5 Hrid); try assumption.
+      - rewrite Hlog5. intros r1 Hr1. unfold lastok in Glast. rewrite Hr1 in Glast. split; [right; right; exact R2|].
+        change (i_arr x6) with (i_arr x5) in R4. rewrite Harr in R4.
+        destruct Glast as [(G1 & G2 & G3)|(G1 & G2 & G3)]; [left|right].
+        + split; [exact G1|]. split; [rewrite R3; exact G2|rewrite R4; exact G3].
+        + split; [exact G1|]. split; [rewrite R3; symmetry; exact G2|rewrite R4; symmetry; exact G3].
+      - rewrite Hlog5, R3. exact Gan. }
+    assert (S7 : SrvInv cf [i] s6) by (exact (proj1 (SrvInv_keepS cf [i] _ s5 tt s6 (ks_write_reneging_record j i) (WFx2_Idx _ _ (proj1 J6)) S6 E))).
+    assert (N7 : NoEntry s6 i) by (intros d0 fr He; apply (entry_nodes s5 s6) in He; [exact (N6 d0 fr He)|exact En7]).
+    assert (Hx7 : find_ind i (inds s6) = Some x7) by (rewrite Ei7; rewrite <- Hid5 at 1; change (i_id x5) with (i_id x7); apply find_put_same).
+    assert (Hrecs7 : recs_of i (h ++ log s6) = recs_of i (h ++ log s2) ++ [r]) by (rewrite El7, Hlog5, app_assoc; apply recs_of_snoc_same; exact Hrid).
+    assert (Hlast7 : last_of i (h ++ log s6) = Some r) by (unfold last_of; rewrite Hrecs7; apply last_opt_snoc).
+    clear E J6 S6 N6.
+    (* attributes reset *)
+    mstep H as u3. unfold reset_individual_attributes in E.
+    destruct (upd_ind_full _ _ _ _ _ E) as (z & Hz' & Ei8 & En8 & Ea8 & El8 & Et8 & Ee8 & Een8). clear E.
+    assert (z = x7) by congruence. subst z.
+    match type of Ei8 with _ = put_ind_l ?x' _ => set (x8 := x') in * end.
+    assert (J8 : Jst an h [i] s7) by (apply (Jst_put_away an h [i] s6 s7 i x7 x8 J7 (or_introl eq_refl) N7 Hx7 Hid5 Ei8 En8 Ee8 Een8 Ea8 El8)).
+    assert (S8 : SrvInv cf [i] s7).
+    { apply (SrvInv_VS cf [i] s6 s7); [|exact S7]. apply (VS_put_ind s6 s7 x7 x8); [change (i_id x8) with (i_id x5); rewrite Hid5; exact Hx7|reflexivity|exact Ei8|exact En8]. }
+    assert (Hx8 : find_ind i (inds s7) = Some x8) by (rewrite Ei8; rewrite <- Hid5 at 1; change (i_id x5) with (i_id x8); apply find_put_same).
+    assert (N8 : NoEntry s7 i) by (intros d0 fr He; apply (entry_nodes s6 s7) in He; [exact (N7 d0 fr He)|exact En8]).
+    assert (O8 : NoOwner cf i s7).
+    { apply (NoOwner_of cf [i] s7 i x8 S8 Hx8). change (i_server x8) with (i_server x5). unfold fiS in PS5. injection PS5 as PS5 _ _. congruence. }
+    clear J7 S7 N7.
+    (* the customer lands; the node lets a blocked customer in *)
+    mstep H as fl0. mstep H as u4.
+    assert (L9 : St [] s8).
+    { destruct (d =? -1) eqn:Ed.
+      - apply Z.eqb_eq in Ed. destruct (exit_accept_St i false s7 s8 (conj J8 S8) N8 O8) as (A1 & _); [|exact E|exact A1].
+        rewrite El8. exists r. split; [exact Hlast7|]. left. split; [exact Hcl|]. rewrite R6. cbn. rewrite Ed. reflexivity.
+      - refine (accept_St' _ d i s7 s8 (conj J8 S8) N8 O8 _ E).
+        intros y Hy. assert (y = x8) by congruence. subst y. rewrite El8, Hlast7, Hrecs7. split; [|split].
+        + left. split; [exact Hcl|]. split; [rewrite R6; reflexivity|]. rewrite R5. cbn. congruence.
+        + change (i_nrec x8) with (i_nrec x5 + 1). assert (Hn5 : i_nrec x5 = i_nrec x) by (unfold fiJ in PJ5; injection PJ5 as _ _ PJ5 _ _; exact PJ5).
+          rewrite Hn5, Gnrec. unfold zlen. rewrite app_length, Nat2Z.inj_add. reflexivity.
+        + intros E0. destruct (recs_of i (h ++ log s2)); discriminate E0. }
+    exact (rbi_St _ j s8 s' L9 H).
+  Qed.
+
+  (* ---------- schedules and slots (in scope: no interruption) ---------- *)
+  Lemma change_shift_St j s s' : St [] s -> change_shift cf j s = Ok (tt, s') -> St [] s'.
+  Proof.
+    intros [HJ HS] H. destruct (Jst_keepJ an h [] _ s tt s' (kj_change_shift cf j Hsc) HJ H) as (HJ' & _).
+    destruct (srv_change_shift cf [] j s s' Hsc (Jst_Ctx an h _ _ HJ) HS H) as (_ & HS' & _). split; assumption.
+  Qed.
+  Lemma slotted_service_St j s s' : St [] s -> slotted_service cf j s = Ok (tt, s') -> St [] s'.
+  Proof.
+    intros [HJ HS] H. destruct (Jst_keepJ an h [] _ s tt s' (kj_slotted_service cf j Hsc) HJ H) as (HJ' & _).
+    destruct (srv_slotted_service cf [] j s s' Hsc (Jst_Ctx an h _ _ HJ) HS H) as (_ & HS' & _). split; assumption.
+  Qed.
+
+  (* ---------- class change while waiting: the customer may move to another queue of the same node ---------- *)
+  Lemma St_requeue j s s' nd nd1 : St [] s -> nodeZ s j = Some nd ->
+    n_id nd1 = n_id nd -> n_pop nd1 = n_pop nd -> n_bq nd1 = n_bq nd -> n_nint nd1 = n_nint nd -> fnS nd1 = fnS nd ->
+    Permutation (concat (n_queues nd1)) (concat (n_queues nd)) -> put_node nd1 s = Ok (tt, s') -> St [] s'.
+  Proof.
+    intros [HJ HS] Hn Eid Epop Ebq Enint EfS Hperm E.
+    pose proof (WFx2_Idx _ _ (proj1 HJ)) as HI. pose proof (HI _ _ Hn) as Hidn.
+    destruct (put_node_facts _ _ _ _ E) as (Es0 & Ei0 & Ea0 & El0 & Et0 & Ee0 & Een0).
+    assert (En0 : nodes s' = updZ (nodes s) (n_id nd1 - 1) nd1) by (rewrite Es0; reflexivity).
+    assert (Hn' : nodeZ s (n_id nd1) = Some nd) by (rewrite Eid, Hidn; exact Hn).
+    assert (HZ0 : forall k, nodeZ s' k = if k =? j then Some nd1 else nodeZ s k).
+    { intros k. rewrite (nodeZ_upd s s' nd1 nd k En0 Hn'). rewrite Eid, Hidn. reflexivity. }
+    assert (W0 : Conserve2.WFx2 [] s').
+    { assert (Hok : Conserve2.okn (Conserve2.shp s) nd) by (apply (Conserve2.get_node_okn j); [exact (Conserve2.WFx2_idx _ _ (proj1 HJ))|exact Hn]).
+      apply (Conserve2.trK_put_node_mv (fun sh => Conserve2.okn sh nd) [] nd1) with (s := s) (a := tt); [|exact Hok|exact (proj1 HJ)|exact E].
+      intros sh Hsh. exists nd. auto. }
+    assert (Hatn : forall k z, at_node s' k z <-> at_node s k z).
+    { intros k z. unfold at_node. rewrite HZ0. destruct (Z.eqb_spec k j) as [->|Hne]; [|reflexivity]. unfold all_individuals. split.
+      - intros (n & Hnn & Hin). injection Hnn as <-. exists nd. split; [exact Hn|]. eapply Permutation_in; eauto.
+      - intros (n & Hnn & Hin). assert (n = nd) by congruence. subst n. exists nd1. split; [reflexivity|]. eapply Permutation_in; [symmetry; exact Hperm|exact Hin]. }
+    destruct HJ as (A & B & C & D). split.
+    - split; [exact W0|]. split; [|split].
+      + unfold JI in *. rewrite El0. apply (JH_mono an _ s s' B); [intros k z; apply Hatn|intros k z _; rewrite Ei0; reflexivity|exact Ee0|rewrite Ea0; lia].
+      + destruct C as [C1 C2]. constructor.
+        * intros d0 fr y (n & Hnn & Hin). rewrite HZ0 in Hnn. rewrite Ei0. apply (C1 d0 fr y).
+          destruct (Z.eqb_spec d0 j) as [->|Hne]; [injection Hnn as <-; exists nd; rewrite <- Ebq; auto|exists n; auto].
+        * intros d0 n Hnn. rewrite HZ0 in Hnn. destruct (Z.eqb_spec d0 j) as [->|Hne]; [injection Hnn as <-; rewrite Ebq; exact (C2 j nd Hn)|exact (C2 d0 n Hnn)].
+      + intros k n Hnn. rewrite HZ0 in Hnn. destruct (Z.eqb_spec k j) as [->|Hne]; [injection Hnn as <-; rewrite Enint; exact (D j nd Hn)|exact (D k n Hnn)].
+    - apply (SrvInv_VS cf [] s s' (VS_put_node s s' nd nd1 Hn' EfS Eid En0 Ei0)). exact HS.
+  Qed.
+
+  Lemma ccww_St j s s' : preempts cf = false -> St [] s -> change_customer_class_while_waiting cf j s = Ok (tt, s') -> St [] s'.
+  Proof.
+    intros Hnp HSt H. unfold change_customer_class_while_waiting in H.
+    mstep H as nd. mstep H as i. mstep H as x. mstep H as nc'. mstep H as p'.
+    mstep H as u0. pose proof (find_ind_id _ _ _ Hf) as Hidx.
+    match type of E with put_ind ?x' _ = _ => set (x1 := x') in * end.
+    destruct HSt as [HJ HS].
+    destruct (carry_put_ind cf [] s s0 tt x x1 ltac:(change (i_id x1) with (i_id x); rewrite Hidx; exact Hf) eq_refl (Jst_Ctx an h _ _ HJ) HS E) as (_ & HS0 & ES0 & EJ0).
+    assert (St0 : St [] s0) by (split; [eapply Jst_VJ; eauto|exact HS0]).
+    destruct (put_ind_facts _ _ _ _ E) as (_ & En0 & _). clear E HJ HS HS0.
+    mstep H as u1.
+    assert (St1 : St [] s1).
+    { destruct (negb (p' =? i_pprio x)); [|apply ret_spec in E as [_ ->]; exact St0].
+      mstep E as q. rename Hl2 into Hq. mstep E as q'. rename Hl2 into Hq'. mstep E as qn. rename Hl2 into Hqn. mstep E as u2.
+      match type of E0 with put_node ?n _ = _ => set (nd1 := n) in * end.
+      assert (St2 : St [] s2).
+      { apply (St_requeue j s0 s2 nd nd1 St0); [rewrite (nodeZ_same s s0 j En0); exact Hn|reflexivity|reflexivity|reflexivity|reflexivity|reflexivity| |exact E0].
+        unfold nd1. cbn.
+        destruct (Conserve2.nthZ_nat _ _ _ Hq) as (kp & Hkp & Hqk). rewrite Hkp, Conserve2.updZ_nat in *.
+        destruct (Conserve2.nthZ_nat _ _ _ Hqn) as (kn & Hkn & Hqnk). rewrite Hkn, Conserve2.updZ_nat.
+        rewrite (Conserve2.concat_upd_add _ _ _ (qn ++ [i]) i Hqnk); [|rewrite Permutation_app_comm; reflexivity].
+        eapply Conserve2.concat_upd_rm; [exact Hqk|]. apply Conserve2.remove_first_perm. exact Hq'. }
+      clear E0. destruct (negb (nd_inf nd) && (0 <? numo (n_c nd))); [|apply ret_spec in E as [_ ->]; exact St2].
+      mstep E as v. destruct (preempt_victim_none cf j i s2 v s3 Hnp E0) as [-> ->]. apply ret_spec in E as [_ ->]. exact St2. }
+    clear E St0.
+    mstep H as u3. match type of E with ?m _ = _ => destruct (St_carryB [] m s1 tt s2 ltac:(kv using kb_lem) St1 E) as (St2 & _) end. clear E.
+    exact (proj1 (St_carryB [] _ s2 tt s' (kb_decide_class_change cf j i) St2 H)).
+  Qed.
+
+  (* ---------- the arrival node: a fresh customer is rejected, baulks, or enters its first node ---------- *)
+  Lemma wbr_spec j i ty s s' : write_br_record j i ty s = Ok (tt, s') ->
+    exists x r, find_ind i (inds s) = Some x /\ r_id r = i_id x /\ r_type r = ty /\ r_node r = j /\
+      inds s' = put_ind_l (x <| i_nrec := i_nrec x + 1 |>) (inds s) /\
+      nodes s' = nodes s /\ exit_ids s' = exit_ids s /\ exit_n s' = exit_n s /\ arr s' = arr s /\ log s' = log s ++ [r] /\ now s' = now s.
+  Proof.
+    intros H. unfold write_br_record in H. mstep H as t0. mstep H as nd. mstep H as x.
+    destruct (log_then_bump _ _ _ _ _ H) as (x0 & Hx0 & A). assert (x0 = x) by congruence. subst x0.
+    match type of A with context [log s ++ [?r0]] => exists x, r0 end. split; [exact Hf|]. repeat (split; [reflexivity|]). exact A.
+  Qed.
+
+  Lemma release_individual_St j i s s' : St [i] s -> NoEntry s i -> NoOwner cf i s ->
+    recs_of i (h ++ log s) = [] -> (forall x, find_ind i (inds s) = Some x -> i_nrec x = 0) -> an i = Some j ->
+    release_individual cf j i s = Ok (tt, s') -> St [] s'.
+  Proof.
+    intros HSt HN HO Hfresh Hnrec Han H. unfold release_individual in H.
+    mstep H as x. mstep H as nd. mstep H as nc. mstep H as sp.
+    destruct (St_carryB [i] _ s sp s0 (kb_sys_population) HSt E) as (St0 & EJ0 & ES0). clear E.
+    destruct (rec_VJS s s0 i x EJ0 ES0 Hf) as (x0 & Hx0 & PJ0 & PS0).
+    assert (N0 : NoEntry s0 i) by (eapply NoEntry_VJ; eauto). assert (O0 : NoOwner cf i s0) by (eapply NoOwner_VS; eauto).
+    assert (Hlog0 : log s0 = log s) by (destruct (VJ_glob _ _ EJ0) as (_ & _ & _ & _ & Q); exact Q).
+    assert (Hnrec0 : forall y, find_ind i (inds s0) = Some y -> i_nrec y = 0).
+    { intros y Hy. assert (y = x0) by congruence. subst y. unfold fiJ in PJ0. injection PJ0 as _ _ PJ0 _ _. rewrite PJ0. apply Hnrec. exact Hf. }
+    clear HSt HN HO.
+    (* a baulk / rejection record, then the exit *)
+    assert (Hbr : forall ty sa sb sc, (ty = 3 \/ ty = 4) -> St [i] sa -> NoEntry sa i -> NoOwner cf i sa -> log sa = log s ->
+              write_br_record j i ty sa = Ok (tt, sb) -> exit_accept i false sb = Ok (tt, sc) -> St [] sc).
+    { intros ty sa sb sc Hty [Ja Sa] Na Oa Ela Ew Ex.
+      destruct (wbr_spec j i ty sa sb Ew) as (xw & r & Hxw & R1 & R2 & R3 & Ei & En & Ee & Een & Ea & El & Et).
+      pose proof (find_ind_id _ _ _ Hxw) as Hidw. assert (Hrid : r_id r = i) by congruence.
+      assert (Hrecs : recs_of i (h ++ log sa) = []) by (rewrite Ela; exact Hfresh).
+      assert (Jb : Jst an h [i] sb).
+      { match type of Ei with _ = put_ind_l ?x' _ => set (xn := x') in * end.
+        apply (Jst_log_away an h [i] sa sb i xw xn r Ja (or_introl eq_refl) Na Hxw Hidw Hrid); try assumption.
+        - unfold last_of. rewrite Hrecs. discriminate.
+        - rewrite R3. intros _. exact Han. }
+      assert (Sb : SrvInv cf [i] sb) by (exact (proj1 (SrvInv_keepS cf [i] _ sa tt sb (ks_write_br_record j i ty) (WFx2_Idx _ _ (proj1 Ja)) Sa Ew))).
+      assert (Nb : NoEntry sb i) by (intros d0 fr He; apply (entry_nodes sa sb) in He; [exact (Na d0 fr He)|exact En]).
+      assert (Ob : NoOwner cf i sb) by (exact (NoOwner_nodes cf i sa sb En Oa)).
+      destruct (exit_accept_St i false sb sc (conj Jb Sb) Nb Ob) as (A1 & _); [|exact Ex|exact A1].
+      exists r. unfold last_of. rewrite El, app_assoc, (recs_of_snoc_same _ _ _ Hrid), Hrecs. split; [reflexivity|]. right. rewrite R2. exact Hty. }
+    (* or the customer is accepted by its first node *)
+    assert (Hacc : forall sa sc, St [i] sa -> NoEntry sa i -> NoOwner cf i sa -> log sa = log s -> (forall y, find_ind i (inds sa) = Some y -> i_nrec y = 0) ->
+              send_individual cf j i sa = Ok (tt, sc) -> St [] sc).
+    { intros sa sc Sta Na Oa Ela Hnr Hm. unfold send_individual in Hm. mstep Hm as u0.
+      match type of E with ?m _ = _ => destruct (St_carryB [i] m sa tt s1 ltac:(kv using kb_lem) Sta E) as (St1 & EJ1 & ES1) end.
+      mstep Hm as fl0.
+      refine (accept_St' _ j i s1 sc St1 (NoEntry_VJ _ _ _ EJ1 Na) (NoOwner_VS cf i _ _ ES1 Oa) _ Hm).
+      intros y Hy. assert (Hl1 : log s1 = log s) by (destruct (VJ_glob _ _ EJ1) as (_ & _ & _ & _ & Q); congruence).
+      rewrite Hl1. unfold last_of. rewrite Hfresh. split; [exact I|]. split; [|intros _; exact Han].
+      pose proof (VJ_find sa s1 i EJ1) as Hv. rewrite Hy in Hv. destruct (find_ind i (inds sa)) as [ya|] eqn:Ea; [|discriminate Hv].
+      cbn [option_map] in Hv. unfold fiJ in Hv. injection Hv as _ _ Hv _ _. rewrite Hv. apply Hnr. reflexivity. }
+    match type of H with (if ?b then _ else _) _ = _ => destruct b end.
+    - mstep H as u1. match goal with E : write_br_record j i ?ty ?sa = Ok (tt, ?sb) |- _ => exact (Hbr ty sa sb s' ltac:(auto) St0 N0 O0 Hlog0 E H) end.
+    - mstep H as tabs. mstep H as tab. destruct tab as [tb|].
+      + mstep H as u.
+        destruct (St_carryB [i] draw_unif s0 u s1 ltac:(kv0) St0 E) as (St1 & EJ1 & ES1). clear E.
+        assert (N1 : NoEntry s1 i) by (eapply NoEntry_VJ; eauto). assert (O1 : NoOwner cf i s1) by (eapply NoOwner_VS; eauto).
+        assert (Hlog1 : log s1 = log s) by (destruct (VJ_glob _ _ EJ1) as (_ & _ & _ & _ & Q); congruence).
+        match type of H with (if ?b then _ else _) _ = _ => destruct b end.
+        * mstep H as u1. match goal with E : write_br_record j i ?ty ?sa = Ok (tt, ?sb) |- _ => exact (Hbr ty sa sb s' ltac:(auto) St1 N1 O1 Hlog1 E H) end.
+        * apply (Hacc s1 s' St1 N1 O1 Hlog1); [|exact H]. intros y Hy.
+          pose proof (VJ_find s0 s1 i EJ1) as Hv. rewrite Hy in Hv. destruct (find_ind i (inds s0)) as [ya|] eqn:Ea; [|discriminate Hv].
+          cbn [option_map] in Hv. unfold fiJ in Hv. injection Hv as _ _ Hv _ _. rewrite Hv. apply Hnrec0. reflexivity.
+      + exact (Hacc s0 s' St0 N0 O0 Hlog0 Hnrec0 H).
+  Qed.
+
+  Lemma route_of_same i c r s s' : route_of cf i c s = Ok (r, s') -> s' = s.
+  Proof.
+    unfold route_of. intros H. mstep H as rt. destruct rt as [rs|routes|routes al ch].
+    - apply ret_spec in H as [_ ->]. reflexivity.
+    - destruct routes; [discriminate H|]. mstep H as r0. apply ret_spec in H as [_ ->]. reflexivity.
+    - destruct routes; [discriminate H|]. mstep H as r0. apply ret_spec in H as [_ ->]. reflexivity.
+  Qed.
+  Lemma batch_loop_St : forall n j c p s s', St [] s -> (forall i, a_created (arr s) < i -> an i = Some j) ->
+    batch_loop cf n j c p s = Ok (tt, s') -> St [] s'.
+  Proof.
+    induction n as [|n IH]; intros j c p s s' HSt Han H; cbn [batch_loop] in H; [apply ret_spec in H as [_ ->]; exact HSt|].
+    mstep H as u0. unfold modify in E. injection E as <-.
+    set (s1 := s <| arr := arr s <| a_created := a_created (arr s) + 1 |> |>) in *.
+    mstep H as i0. change (a_created (arr s1)) with (a_created (arr s) + 1) in H. set (i := a_created (arr s) + 1) in *.
+    mstep H as u1. assert (s0 = s1) by (destruct (1 <=? j); [apply ret_spec in E as [_ ->]; reflexivity|discriminate E]). subst s0. clear E.
+    mstep H as nd. mstep H as r. apply route_of_same in E. subst s0.
+    mstep H as u2. unfold put_ind in E. apply modify_spec in E. set (xn := new_ind i c p r) in *.
+    destruct HSt as [(A & B & C & D) HS].
+    assert (Hnone : find_ind i (inds s) = None).
+    { destruct (find_ind i (inds s)) as [z|] eqn:Ez; [|reflexivity]. pose proof (WFx2_rec_le s i z A Ez). unfold i in *. lia. }
+    destruct (Conserve2.spawn_spec s s1 xn A eq_refl eq_refl) as [W4 X4]. rewrite <- E in W4, X4. change (i_id xn) with i in W4.
+    assert (Hfo : forall y, y <> i -> find_ind y (inds s0) = find_ind y (inds s)).
+    { intros y Hy. rewrite E. cbn. rewrite find_put_other by (change (i_id xn) with i; exact Hy). reflexivity. }
+    assert (Hfi : find_ind i (inds s0) = Some xn) by (rewrite E; cbn; change i with (i_id xn) at 1; apply find_put_same).
+    assert (Hnodes : nodes s0 = nodes s) by (rewrite E; reflexivity).
+    assert (Hlog : log s0 = log s) by (rewrite E; reflexivity).
+    assert (St4 : St [i] s0).
+    { split; [split; [exact W4|split; [|split]]|].
+      - unfold JI in *. rewrite Hlog. apply (JH_mono an _ s s0 B); [intros k y; apply (at_node_nodes s s0); exact Hnodes| |rewrite E; reflexivity|rewrite E; cbn; lia].
+        intros k y Hk. apply (at_node_nodes s s0) in Hk; [|exact Hnodes]. pose proof (WFx2_at_le s k y A Hk). rewrite Hfo; [reflexivity|unfold i; lia].
+      - destruct C as [C1 C2]. constructor.
+        + intros d0 fr y He. apply (entry_nodes s s0) in He; [|exact Hnodes]. destruct (C1 d0 fr y He) as (z & Hz & P). exists z.
+          rewrite Hfo; [auto|]. intros ->. congruence.
+        + intros d0 n0 Hnn. rewrite (nodeZ_same s s0 d0 Hnodes) in Hnn. exact (C2 d0 n0 Hnn).
+      - exact (NoInt_same s s0 Hnodes D).
+      - destruct HS as [S1 S2 S3 S4]. constructor; [| | |intros Hp y z Hy; destruct (Z.eq_dec y i) as [->|Hne];
+          [assert (z = xn) by congruence; subst z; reflexivity|rewrite Hfo in Hy by exact Hne; exact (S4 Hp y z Hy)]].
+        + intros k n0 Hnn. rewrite (nodeZ_same s s0 k Hnodes) in Hnn. exact (S1 k n0 Hnn).
+        + intros k n0 sv c0 Hnn Hsl Hin Hc0. rewrite (nodeZ_same s s0 k Hnodes) in Hnn. destruct (S2 k n0 sv c0 Hnn Hsl Hin Hc0) as (z & Hz & P).
+          exists z. rewrite Hfo; [auto|]. intros ->. congruence.
+        + intros y z Hy Hny Hb Hsv. destruct (Z.eq_dec y i) as [->|Hne]; [exfalso; apply Hny; left; reflexivity|].
+          rewrite Hfo in Hy by exact Hne. destruct (S3 y z Hy ltac:(intros []) Hb Hsv) as (k & n0 & P1 & P2 & P3). exists k, n0. rewrite (nodeZ_same s s0 k Hnodes). auto. }
+    assert (N4 : NoEntry s0 i).
+    { intros d0 fr He. apply (entry_nodes s s0) in He; [|exact Hnodes]. destruct (l_ent _ C d0 fr i He) as (z & Hz & _). congruence. }
+    assert (O4 : NoOwner cf i s0).
+    { intros k n0 sv Hnn Hsl Hin Hc0. rewrite (nodeZ_same s s0 k Hnodes) in Hnn. destruct (si_own _ _ _ HS k n0 sv i Hnn Hsl Hin Hc0) as (z & Hz & _). congruence. }
+    clear E.
+    mstep H as u3.
+    assert (Hfresh : recs_of i (h ++ log s0) = []).
+    { rewrite Hlog. apply recs_of_none. intros r0 Hr. pose proof (j_ids _ _ _ B r0 Hr). unfold i. lia. }
+    assert (St5 : St [] s2).
+    { apply (release_individual_St j i s0 s2 St4 N4 O4 Hfresh); [|apply Han; unfold i; lia|exact E].
+      intros y Hy. assert (y = xn) by congruence. subst y. reflexivity. }
+    destruct (Conserve2.tr_release_individual cf j i [] s0 tt s2 I W4 E) as [_ [_ Hle]].
+    apply (IH j c p s2 s' St5); [|exact H]. intros i' Hi'. apply Han. destruct X4 as [_ Hle4]. cbn in Hle, Hle4. lia.
+  Qed.
+
+  Lemma arrival_have_event_St s s' : St [] s -> (forall i, a_created (arr s) < i -> an i = Some (a_next_node (arr s))) ->
+    arrival_have_event cf s = Ok (tt, s') -> St [] s'.
+  Proof.
+    intros HSt Han H. unfold arrival_have_event in H. mstep H as a. mstep H as b.
+    destruct (St_carryB [] draw_batch s b s0 ltac:(kv0) HSt E) as (St0 & EJ0 & _). clear E.
+    mstep H as u0. assert (s1 = s0) by (destruct (b <? 0); [discriminate E|apply ret_spec in E as [_ ->]; reflexivity]). subst s1. clear E.
+    mstep H as p. mstep H as u1.
+    assert (St1 : St [] s1).
+    { refine (batch_loop_St _ _ _ _ s0 s1 St0 _ E). intros i Hi. apply Han. destruct (VJ_glob _ _ EJ0) as (_ & _ & Q & _). lia. }
+    clear E. mstep H as ia. destruct (St_carryB [] draw_arr s1 ia s2 ltac:(kv0) St1 E) as (St2 & _). clear E.
+    mstep H as a'. mstep H as row. mstep H as old. mstep H as u2.
+    match type of E with ?m _ = _ => destruct (St_carryB [] m s2 tt s3 ltac:(kv0) St2 E) as (St3 & _) end. clear E.
+    exact (proj1 (St_carryB [] _ s3 tt s' kb_find_next_event_date St3 H)).
+  Qed.
 End Walk.
+
+(* ====================================================================================================================
+   8. Who acts next: the customers a node names for its next end of service / renege are not blocked
+   ==================================================================================================================== *)
+Definition PickN (cf : config) (s : sim) (j : Z) (nd : node) : Prop :=
+  (forall i x, In i (n_next_inds nd) -> find_ind i (inds s) = Some x ->
+    (n_next_type nd = 0 -> i_blocked x = false /\ i_node x = Some j) /\
+    (n_next_type nd = 2 -> i_blocked x = false /\ i_server x = None)) /\
+  (* a class change while waiting is only ever scheduled when the configuration has class-change times *)
+  (n_next_type nd = 3 -> cf_dyn cf = true).
+Definition PickOK (cf : config) (s : sim) : Prop := forall j nd, nodeZ s j = Some nd -> PickN cf s j nd.
+
+Lemma scan_servers_in : forall l best acc c, In c (snd (scan_servers l best acc)) ->
+  In c acc \/ exists sv, In sv l /\ sv_cust sv = Some c /\ sv_next_end sv <> None.
+Proof.
+  induction l as [|sv r IH]; intros best acc c H; cbn [scan_servers] in H; [left; exact H|].
+  destruct (date_lt (sv_next_end sv) best) eqn:E1.
+  - destruct (IH _ _ _ H) as [Hin|(t & Ht & P)]; [|right; exists t; split; [right; exact Ht|exact P]].
+    right. exists sv. split; [left; reflexivity|]. destruct (sv_cust sv) as [c0|]; [|destruct Hin]. destruct Hin as [->|[]]. split; [reflexivity|].
+    destruct (sv_next_end sv); [discriminate|discriminate E1].
+  - destruct (date_eqb (sv_next_end sv) best && match best with Some _ => true | None => false end) eqn:E2.
+    + destruct (IH _ _ _ H) as [Hin|(t & Ht & P)]; [|right; exists t; split; [right; exact Ht|exact P]].
+      apply in_app_or in Hin as [Hin|Hin]; [left; exact Hin|]. right. exists sv. split; [left; reflexivity|].
+      destruct (sv_cust sv) as [c0|]; [|destruct Hin]. destruct Hin as [->|[]]. split; [reflexivity|].
+      apply andb_true_iff in E2 as [E2 E3]. destruct best; [|discriminate E3]. destruct (sv_next_end sv); [discriminate|discriminate E2].
+    + destruct (IH _ _ _ H) as [Hin|(t & Ht & P)]; [left; exact Hin|right; exists t; split; [right; exact Ht|exact P]].
+Qed.
+Lemma scan_inds_in t il : forall q best acc c, In c (snd (scan_inds t q il best acc)) ->
+  In c acc \/ (In c q /\ exists x, find_ind c il = Some x /\ i_blocked x = false).
+Proof.
+  induction q as [|i r IH]; intros best acc c H; cbn [scan_inds] in H; [left; exact H|].
+  assert (Hrec : forall b a, In c (snd (scan_inds t r il b a)) -> In c a \/ (In c (i :: r) /\ exists x, find_ind c il = Some x /\ i_blocked x = false)).
+  { intros b a Hc. destruct (IH _ _ _ Hc) as [Hin|[Hin P]]; [left; exact Hin|right; split; [right; exact Hin|exact P]]. }
+  destruct (find_ind i il) as [x|] eqn:Ef; [|exact (Hrec _ _ H)].
+  destruct (i_send x) as [e|]; [|exact (Hrec _ _ H)].
+  destruct (negb (i_blocked x) && (t <=? e)) eqn:Eb; [|exact (Hrec _ _ H)].
+  apply andb_true_iff in Eb as [Eb _]. apply negb_true_iff in Eb.
+  assert (Hme : In i (i :: r) /\ exists x0, find_ind i il = Some x0 /\ i_blocked x0 = false) by (split; [left; reflexivity|eauto]).
+  destruct (date_lt (Some e) best).
+  - destruct (Hrec _ _ H) as [[->|[]]|P]; [right; exact Hme|right; exact P].
+  - destruct (date_eqb (Some e) best); [|exact (Hrec _ _ H)].
+    destruct (Hrec _ _ H) as [Hin|P]; [|right; exact P]. apply in_app_or in Hin as [Hin|[->|[]]]; [left; exact Hin|right; exact Hme].
+Qed.
+Lemma scan_ren_in il : forall q best acc b l c, scan_ren q il best acc = Some (b, l) -> In c l ->
+  In c acc \/ (In c q /\ exists x, find_ind c il = Some x /\ i_server x = None).
+Proof.
+  induction q as [|i r IH]; intros best acc b l c H Hc; cbn [scan_ren] in H; [injection H as <- <-; left; exact Hc|].
+  assert (Hrec : forall b0 a, scan_ren r il b0 a = Some (b, l) -> In c a \/ (In c (i :: r) /\ exists x, find_ind c il = Some x /\ i_server x = None)).
+  { intros b0 a Hs. destruct (IH _ _ _ _ _ Hs Hc) as [Hin|[Hin P]]; [left; exact Hin|right; split; [right; exact Hin|exact P]]. }
+  destruct (find_ind i il) as [x|] eqn:Ef; [|discriminate H].
+  destruct (i_ren x) as [| |z]; [discriminate H|exact (Hrec _ _ H)|].
+  destruct (i_server x) eqn:Es.
+  - rewrite !andb_false_r in H. exact (Hrec _ _ H).
+  - rewrite !andb_true_r in H.
+    assert (Hme : In i (i :: r) /\ exists x0, find_ind i il = Some x0 /\ i_server x0 = None) by (split; [left; reflexivity|eauto]).
+    destruct (date_lt (Some z) best).
+    + destruct (Hrec _ _ H) as [[->|[]]|P]; [right; exact Hme|right; exact P].
+    + destruct (date_eqb (Some z) best); [|exact (Hrec _ _ H)].
+      destruct (Hrec _ _ H) as [Hin|P]; [|right; exact P]. apply in_app_or in Hin as [Hin|[->|[]]]; [left; exact Hin|right; exact Hme].
+Qed.
+Lemma dne_in : forall cands best, decide_next_event cands best = best \/
+  (In (decide_next_event cands best) cands /\ fst (snd (decide_next_event cands best)) <> None).
+Proof.
+  induction cands as [|c r IH]; intros best; cbn [decide_next_event]; [left; reflexivity|].
+  destruct (date_lt (fst (snd c)) (fst (snd best))) eqn:Ed.
+  - destruct (IH c) as [E|[Hin Hne]]; [right; split; [left; symmetry; exact E|rewrite E; destruct (fst (snd c)); [discriminate|discriminate Ed]]|right; split; [right; exact Hin|exact Hne]].
+  - destruct (IH best) as [E|[Hin Hne]]; [left; exact E|right; split; [right; exact Hin|exact Hne]].
+Qed.
+
+Section Pick.
+  Variable cf : config.
+  Hypothesis Hsc : scope2 cf = true.
+
+  Lemma une_pick j s s' : Ctx [] s -> SrvInv cf [] s -> update_next_event_date cf j s = Ok (tt, s') ->
+    inds s' = inds s /\ (forall k, k <> j -> nodeZ s' k = nodeZ s k) /\ (forall nd', nodeZ s' j = Some nd' -> PickN cf s' j nd').
+  Proof.
+    intros HC HS H. unfold update_next_event_date in H. mstep H as nd. mstep H as nc. mstep H as t0. mstep H as il.
+    pose proof (Ctx_Idx _ _ HC _ _ Hn) as Hidn.
+    set (inf := nd_inf nd) in *.
+    set (es := if nc_slotted nc || inf then scan_inds (now s) (all_individuals nd) (inds s) None [] else scan_servers (n_servers nd) None []) in *.
+    mstep H as rn.
+    assert (Hrn : s0 = s /\ forall c, In c (snd rn) -> exists x, find_ind c (inds s) = Some x /\ i_server x = None /\ i_blocked x = false).
+    { destruct (negb inf && nc_reneging nc) eqn:Ec.
+      - apply lift_spec in E as [-> Hl]. split; [reflexivity|]. intros c Hcin. destruct rn as [b l]. cbn in Hcin.
+        destruct (scan_ren_in _ _ _ _ _ _ c Hl Hcin) as [[]|[Hq (x & Hx & Hsv)]]. exists x. split; [exact Hx|]. split; [exact Hsv|].
+        destruct (i_blocked x) eqn:Eb; [|reflexivity]. exfalso.
+        destruct (proj1 (proj2 HC) j c (ex_intro _ nd (conj Hn Hq))) as (x0 & Hx0 & Hk). assert (x0 = x) by congruence. subst x0.
+        destruct (si_blk _ _ _ HS c x Hx ltac:(intros []) Eb Hsv) as (k & n & P1 & P2 & [P3|P3]).
+        + assert (k = j) by congruence. subst k. assert (n = nd) by congruence. subst n. apply andb_true_iff in Ec as [Ec _]. apply negb_true_iff in Ec. unfold inf in Ec. congruence.
+        + assert (k = j) by congruence. subst k. unfold slot_of in P3. rewrite Hc in P3.
+          pose proof (scope2_nc _ _ _ Hsc Hc) as Hs. unfold scope_nc in Hs. apply andb_true_iff in Hs as [_ Hs]. unfold nc_slotted in P3.
+          destruct (nc_srv nc); try discriminate P3. apply andb_true_iff in Hs as [Hs _]. apply andb_true_iff in Hs as [_ Hs]. apply negb_true_iff in Hs.
+          apply andb_true_iff in Ec as [_ Ec]. congruence.
+      - apply ret_spec in E as [-> ->]. split; [reflexivity|]. intros c []. }
+    destruct Hrn as [-> Hrn]. clear E.
+    assert (Hes : forall c, In c (snd es) -> forall x, find_ind c (inds s) = Some x -> i_blocked x = false /\ i_node x = Some j).
+    { intros c Hcin x Hx. unfold es in Hcin. destruct (nc_slotted nc || inf) eqn:Ec.
+      - destruct (scan_inds_in _ _ _ _ _ c Hcin) as [[]|[Hq (x0 & Hx0 & Hb)]]. assert (x0 = x) by congruence. subst x0. split; [exact Hb|].
+        destruct (proj1 (proj2 HC) j c (ex_intro _ nd (conj Hn Hq))) as (x0 & Hx0' & Hk). congruence.
+      - destruct (scan_servers_in _ _ _ c Hcin) as [[]|(sv & Hsv & Hcu & Hne)]. apply orb_false_iff in Ec as [Ec _].
+        assert (Hsl : slot_of cf j = false) by (unfold slot_of; rewrite Hc; exact Ec).
+        destruct (si_own _ _ _ HS j nd sv c Hn Hsl Hsv Hcu) as (x0 & Hx0 & _ & P2 & P3). assert (x0 = x) by congruence. subst x0. split; [apply P3; exact Hne|exact P2]. }
+    (* the node that is written back *)
+    assert (Hfin : forall d l ty, (ty = 0 -> l = snd es) -> (ty = 2 -> l = snd rn) -> (ty = 3 -> cf_dyn cf = true) ->
+              put_node (nd <| n_next_date := d |> <| n_next_inds := l |> <| n_next_type := ty |>) s = Ok (tt, s') ->
+              inds s' = inds s /\ (forall k, k <> j -> nodeZ s' k = nodeZ s k) /\ (forall nd', nodeZ s' j = Some nd' -> PickN cf s' j nd')).
+    { intros d l ty H0 H2 H3 Hp. set (nd1 := nd <| n_next_date := d |> <| n_next_inds := l |> <| n_next_type := ty |>) in *.
+      destruct (put_node_facts _ _ _ _ Hp) as (Es & Ei & _).
+      assert (En : nodes s' = updZ (nodes s) (n_id nd1 - 1) nd1) by (rewrite Es; reflexivity).
+      assert (Hn' : nodeZ s (n_id nd1) = Some nd) by (change (n_id nd1) with (n_id nd); rewrite Hidn; exact Hn).
+      assert (HZ : forall k, nodeZ s' k = if k =? j then Some nd1 else nodeZ s k).
+      { intros k. rewrite (nodeZ_upd s s' nd1 nd k En Hn'). change (n_id nd1) with (n_id nd). rewrite Hidn. reflexivity. }
+      split; [exact Ei|]. split.
+      - intros k Hk. rewrite HZ. apply Z.eqb_neq in Hk. rewrite Hk. reflexivity.
+      - intros nd' Hnn. rewrite HZ, Z.eqb_refl in Hnn. injection Hnn as <-. split; [|intros Hty; cbn in Hty; exact (H3 Hty)].
+        intros c x Hcin Hx. rewrite Ei in Hx. cbn in Hcin. split.
+        + intros Hty. cbn in Hty. rewrite (H0 Hty) in Hcin. exact (Hes c Hcin x Hx).
+        + intros Hty. cbn in Hty. rewrite (H2 Hty) in Hcin. destruct (Hrn c Hcin) as (x0 & Hx0 & P1 & P2). assert (x0 = x) by congruence. subst x0. auto. }
+    destruct (nc_reneging nc || cf_dyn cf || nc_sched nc).
+    - match type of H with context [decide_next_event ?cands ?best] => destruct (dne_in cands best) as [Hd|[Hd Hne]]; destruct (decide_next_event cands best) as [ty [d l]] end.
+      + injection Hd as -> -> ->. apply (Hfin None [] 5); [intros Hx; discriminate Hx|intros Hx; discriminate Hx|intros Hx; discriminate Hx|exact H].
+      + cbn in Hne. apply (fun A B C => Hfin d l ty A B C H).
+        * intros ->. apply in_app_or in Hd as [Hd|Hd].
+          -- destruct (nc_srv nc); cbn in Hd; [destruct Hd|destruct Hd as [Hd|[]]; discriminate Hd|destruct Hd as [Hd|[]]; discriminate Hd].
+          -- destruct Hd as [Hd|[Hd|[Hd|[]]]]; [injection Hd as Hd; rewrite Hd; reflexivity|discriminate Hd|discriminate Hd].
+        * intros ->. apply in_app_or in Hd as [Hd|Hd].
+          -- destruct (nc_srv nc); cbn in Hd; [destruct Hd|destruct Hd as [Hd|[]]; discriminate Hd|destruct Hd as [Hd|[]]; discriminate Hd].
+          -- destruct Hd as [Hd|[Hd|[Hd|[]]]]; [discriminate Hd|discriminate Hd|injection Hd as Hd; rewrite Hd; reflexivity].
+        * intros ->. apply in_app_or in Hd as [Hd|Hd].
+          -- destruct (nc_srv nc); cbn in Hd; [destruct Hd|destruct Hd as [Hd|[]]; discriminate Hd|destruct Hd as [Hd|[]]; discriminate Hd].
+          -- destruct Hd as [Hd|[Hd|[Hd|[]]]]; [discriminate Hd| |discriminate Hd].
+             destruct (cf_dyn cf); [reflexivity|]. cbn in Hd. injection Hd as Hd _. congruence.
+    - apply (Hfin (fst es) (snd es) 0); [intros _; reflexivity|intros Hx; discriminate Hx|intros Hx; discriminate Hx|exact H].
+  Qed.
+End Pick.
+
+Definition PickAt (cf : config) (s : sim) (k : Z) : Prop := forall nd, nodeZ s k = Some nd -> PickN cf s k nd.
+Lemma update_all_pick cf : scope2 cf = true -> forall js s s', Ctx [] s -> SrvInv cf [] s -> update_all cf js s = Ok (tt, s') ->
+  forall k, (In k js \/ PickAt cf s k) -> PickAt cf s' k.
+Proof.
+  intros Hsc. induction js as [|j r IH]; intros s s' HC HS H k Hk; cbn [update_all] in H.
+  - apply ret_spec in H as [_ ->]. destruct Hk as [[]|Hk]. exact Hk.
+  - mstep H as u0. destruct (une_pick cf Hsc j s s0 HC HS E) as (Ei & Hoth & Hj).
+    destruct (carryB cf [] _ s tt s0 (kb_update_next_event_date cf j) HC HS E) as (HC0 & HS0 & _ & _).
+    apply (IH s0 s' HC0 HS0 H k). destruct (Z.eq_dec k j) as [->|Hne]; [right; exact Hj|].
+    destruct Hk as [[Hk|Hk]|Hk]; [congruence|left; exact Hk|right].
+    intros nd Hn. rewrite (Hoth k Hne) in Hn. destruct (Hk nd Hn) as [Hk1 Hk2]. split; [|exact Hk2]. intros i x Hi Hx. rewrite Ei in Hx. exact (Hk1 i x Hi Hx).
+Qed.
+
+Lemma choice_uniform_dr {A} (l : list A) x s s' : choice_uniform l s = Ok (x, s') -> exists d, s' = s <| dr := d |>.
+Proof.
+  unfold choice_uniform. intros H. mstep H as u. apply lift_spec in H as [-> _].
+  unfold draw_unif in E. destruct (d_unif (dr s)); [discriminate|]. injection E as _ <-. eexists. reflexivity.
+Qed.
+Lemma fnan_spec s s' : find_next_active_node s = Ok (tt, s') ->
+  nodes s' = nodes s /\ inds s' = inds s /\ log s' = log s /\ exit_ids s' = exit_ids s /\ exit_n s' = exit_n s /\ arr s' = arr s.
+Proof.
+  unfold find_next_active_node. intros H. mstep H as cur.
+  destruct (scan_active 0 (a_next_date (arr s) :: map n_next_date (nodes s)) None []) as [d cands].
+  mstep H as k.
+  assert (Hs : exists d0, s0 = s <| dr := d0 |>).
+  { destruct cands as [|a [|b r]]; [discriminate E|apply ret_spec in E as [_ ->]; exists (dr s); destruct s; reflexivity|eapply choice_uniform_dr; eauto]. }
+  destruct Hs as [d0 ->]. unfold modify in H. injection H as <-. repeat split; reflexivity.
+Qed.
+
+(* ====================================================================================================================
+   9. The theorems
+   ==================================================================================================================== *)
+(* the invariant at event boundaries *)
+Definition Jrn2 (cf : config) (an : Z -> option Z) (s : sim) (h : list rec) : Prop :=
+  Conserve2.WFx2 [] s /\ JH an h s /\ Lq s /\ NoInt s /\ SrvInv cf [] s /\ PickOK cf s.
+
+(* the invariant only looks at nodes, records, exit list and counter, and the creation counter *)
+Lemma Jrn2_same cf an s s' h : nodes s' = nodes s -> inds s' = inds s -> exit_ids s' = exit_ids s -> exit_n s' = exit_n s ->
+  a_created (arr s') = a_created (arr s) -> Jrn2 cf an s h -> Jrn2 cf an s' h.
+Proof.
+  intros En Ei Ee Een Ec (A & B & C & D & E & F).
+  assert (HZ : forall k, nodeZ s' k = nodeZ s k) by (intros k; apply nodeZ_same; exact En).
+  split; [|split; [|split; [|split; [|split]]]].
+  - eapply Conserve2.WFx2_shape; [|exact A]. unfold Conserve2.shp. rewrite En, Ei, Ee, Een, Ec. reflexivity.
+  - apply (JH_mono an h s s' B); [intros k y; apply (at_node_nodes s s'); exact En|intros; rewrite Ei; reflexivity|exact Ee|lia].
+  - exact (Lq_same s s' En Ei C).
+  - exact (NoInt_same s s' En D).
+  - destruct E as [S1 S2 S3 S4]. constructor; [| | |intros Hp y z Hy; rewrite Ei in Hy; exact (S4 Hp y z Hy)].
+    + intros j nd Hn. rewrite HZ in Hn. exact (S1 j nd Hn).
+    + intros j nd sv c Hn. rewrite HZ in Hn. rewrite Ei. exact (S2 j nd sv c Hn).
+    + intros i x Hx. rewrite Ei in Hx. intros A1 A2 A3. destruct (S3 i x Hx A1 A2 A3) as (k & nd & P1 & P2 & P3). exists k, nd. rewrite HZ. auto.
+  - intros j nd Hn. rewrite HZ in Hn. destruct (F j nd Hn) as [F1 F2]. split; [|exact F2]. intros i x Hi Hx. rewrite Ei in Hx. exact (F1 i x Hi Hx).
+Qed.
+
+Section Event.
+  Variable cf : config.
+  Hypothesis Hsc : scope2 cf = true.
+
+  Lemma node_have_event_St an h j s s' : St cf an h [] s -> PickOK cf s -> node_have_event cf j s = Ok (tt, s') -> St cf an h [] s'.
+  Proof.
+    intros HSt HP H. unfold node_have_event in H. mstep H as nd.
+    destruct (n_next_type nd =? 0) eqn:E0.
+    { apply Z.eqb_eq in E0. apply (finish_service_St cf an h Hsc j s s' HSt); [|exact H].
+      intros nd0 i x Hn0 Hi Hx. assert (nd0 = nd) by congruence. subst nd0. exact (proj1 (proj1 (HP j nd Hn) i x Hi Hx) E0). }
+    destruct (n_next_type nd =? 1); [exact (change_shift_St cf an h Hsc j s s' HSt H)|].
+    destruct (n_next_type nd =? 2) eqn:E2.
+    { apply Z.eqb_eq in E2. apply (renege_St cf an h Hsc j s s' HSt); [|exact H].
+      intros nd0 i x Hn0 Hi Hx. assert (nd0 = nd) by congruence. subst nd0. exact (proj2 (proj1 (HP j nd Hn) i x Hi Hx) E2). }
+    destruct (n_next_type nd =? 3) eqn:E3.
+    { apply Z.eqb_eq in E3. pose proof (proj2 (HP j nd Hn) E3) as Hdyn.
+      assert (Hnp : preempts cf = false) by (destruct (preempts cf) eqn:Ep; [|reflexivity]; pose proof (proj2 (scope2_pre cf Hsc Ep)); congruence).
+      exact (ccww_St cf an h j s s' Hnp HSt H). }
+    destruct (n_next_type nd =? 4); [exact (slotted_service_St cf an h Hsc j s s' HSt H)|].
+    apply ret_spec in H as [_ ->]. exact HSt.
+  Qed.
+
+  (* one event: the history is extended by the records of the event *)
+  Lemma event_step_Jrn2 an h s s' : Jrn2 cf an s h ->
+    (next_active s = 0 -> forall i, a_created (arr s) < i -> an i = Some (a_next_node (arr s))) ->
+    event_step cf s = Ok (tt, s') -> Jrn2 cf an s' (h ++ log s').
+  Proof.
+    intros HJ Han H. unfold event_step in H. mstep H as u0. unfold modify in E. injection E as <-.
+    set (s0 := s <| log := [] |>) in *.
+    assert (HJ0 : Jrn2 cf an s0 h) by (apply (Jrn2_same cf an s s0 h); try reflexivity; exact HJ).
+    destruct HJ0 as (A & B & C & D & E & F).
+    assert (St0 : St cf an h [] s0).
+    { split; [split; [exact A|split; [|split; [exact C|exact D]]]|exact E]. unfold JI. change (log s0) with (@nil rec). rewrite app_nil_r. exact B. }
+    mstep H as k. mstep H as u1.
+    assert (St1 : St cf an h [] s1).
+    { destruct (next_active s0 =? 0) eqn:Ek.
+      - apply Z.eqb_eq in Ek. apply (arrival_have_event_St cf an h Hsc s0 s1 St0); [|exact E0]. exact (Han Ek).
+      - exact (node_have_event_St an h _ s0 s1 St0 F E0). }
+    clear E0. mstep H as ns. mstep H as u2.
+    destruct (St_carryB cf an h [] _ s1 tt s2 (kb_update_all cf _) St1 E0) as (St2 & EJ2 & _).
+    assert (P2 : PickOK cf s2).
+    { intros j nd' Hn'. destruct (VJ_node _ _ _ _ EJ2 Hn') as (nd & Hn & Eid & _).
+      pose proof (WFx2_Idx _ _ (proj1 (proj1 St1)) _ _ Hn) as Hidn.
+      apply (update_all_pick cf Hsc _ s1 s2 (St_Ctx cf an h [] s1 St1) (proj2 St1) E0 j); [|exact Hn'].
+      left. rewrite <- Hidn. apply in_map. eapply nthZ_In; exact Hn. }
+    clear E0.
+    destruct (fnan_spec _ _ H) as (En & Ei & El & Ee & Een & Ea).
+    apply (Jrn2_same cf an s2 s' (h ++ log s')); [exact En|exact Ei|exact Ee|exact Een|rewrite Ea; reflexivity|].
+    destruct St2 as [(A2 & B2 & C2 & D2) E2]. rewrite El. split; [exact A2|]. split; [exact B2|]. split; [exact C2|]. split; [exact D2|]. split; [exact E2|exact P2].
+  Qed.
+End Event.
+
+(* how the ghost is read off the run: the customers created by an arrival event (next_active = 0) of state s are those
+   with an identifier above the creation counter of s, and they arrive at the node the arrival node had chosen *)
+Definition an_step (s : sim) (an : Z -> option Z) : Z -> option Z :=
+  fun i => if (next_active s =? 0) && (a_created (arr s) <? i) then Some (a_next_node (arr s)) else an i.
+Lemma an_step_old s an i : i <= a_created (arr s) -> an_step s an i = an i.
+Proof. intros H. unfold an_step. destruct (a_created (arr s) <? i) eqn:E; [apply Z.ltb_lt in E; lia|]. rewrite andb_false_r. reflexivity. Qed.
+Lemma an_step_new s an i : next_active s = 0 -> a_created (arr s) < i -> an_step s an i = Some (a_next_node (arr s)).
+Proof. intros H0 H. unfold an_step. rewrite H0. apply Z.ltb_lt in H. rewrite H. reflexivity. Qed.
+
+(* the invariant only looks at the ghost of customers that exist *)
+Lemma JH_an_ext an an' H s : Conserve2.WFx2 [] s -> (forall i, i <= a_created (arr s) -> an' i = an i) -> JH an H s -> JH an' H s.
+Proof.
+  intros HW He [A B C F D]. constructor.
+  - intros k i Hk. destruct (A k i Hk) as (x & Hx & Gn & Gl & Gc & Ga). exists x. split; [exact Hx|].
+    split; [exact Gn|]. split; [exact Gl|]. split; [exact Gc|]. intros E. rewrite He; [exact (Ga E)|].
+    destruct (Conserve2.WFx2_means s HW) as (HP & _). assert (Hin : In i (zseq 1 (Z.to_nat (a_created (arr s))))).
+    { eapply Permutation_in; [exact HP|]. unfold Conserve2.ids_of. apply in_or_app. left. destruct Hk as (nd & Hn & Hin).
+      unfold Conserve2.ids_in_nodes. apply in_concat. exists (all_individuals nd). split; [apply in_map; eapply nthZ_In; exact Hn|exact Hin]. }
+    apply zseq_In in Hin. lia.
+  - exact B.
+  - exact C.
+  - intros i r l E. rewrite He; [exact (F i r l E)|].
+    assert (Hin : In r (recs_of i H)) by (rewrite E; left; reflexivity). apply recs_of_In in Hin as [Hin <-]. exact (D r Hin).
+  - exact D.
+Qed.
+
+(* T2 for C03 on the stage-2 engine, one event: the history is extended by the records of the event *)
+Theorem event_step_jrn2 cf an s s' h : scope2 cf = true -> Jrn2 cf an s h -> event_step cf s = Ok (tt, s') ->
+  Jrn2 cf (an_step s an) s' (h ++ log s').
+Proof.
+  intros Hsc (A & B & C & D & E & F) H.
+  apply (event_step_Jrn2 cf Hsc (an_step s an) h s s'); [|intros H0 i Hi; apply an_step_new; assumption|exact H].
+  split; [exact A|]. split; [|auto]. apply (JH_an_ext an _ _ _ A); [|exact B]. intros i Hi. apply an_step_old. exact Hi.
+Qed.
+
+(* any number of events, each with its own draws, accumulating the history (and the ghost) *)
+Fixpoint run_hist (cf : config) (s : sim) (h : list rec) (an : Z -> option Z) (ds : list draws) : res (sim * list rec * (Z -> option Z)) :=
+  match ds with
+  | [] => Ok (s, h, an)
+  | d :: r => match event_step cf (s <| dr := d |>) with
+              | Ok (_, s1) => run_hist cf s1 (h ++ log s1) (an_step s an) r
+              | Err e => Err e
+              | OutOfFuel => OutOfFuel
+              end
+  end.
+Lemma run_hist_many cf : forall ds s h an s' h' an', run_hist cf s h an ds = Ok (s', h', an') -> run_many cf s ds = Ok s'.
+Proof.
+  induction ds as [|d r IH]; intros s h an s' h' an' H; cbn [run_hist run_many] in *; [inversion H; reflexivity|].
+  destruct (event_step cf (s <| dr := d |>)) as [[u s1]| |]; try discriminate. eapply IH; eauto.
+Qed.
+Lemma run_many_hist cf : forall ds s h an s', run_many cf s ds = Ok s' -> exists h' an', run_hist cf s h an ds = Ok (s', h', an').
+Proof.
+  induction ds as [|d r IH]; intros s h an s' H; cbn [run_hist run_many] in *; [inversion H; eauto|].
+  destruct (event_step cf (s <| dr := d |>)) as [[u s1]| |]; try discriminate. eapply IH; eauto.
+Qed.
+Lemma run_hist_grows cf : forall ds s h an s' h' an', run_hist cf s h an ds = Ok (s', h', an') -> exists t, h' = h ++ t.
+Proof.
+  induction ds as [|d r IH]; intros s h an s' h' an' H; cbn [run_hist] in *; [inversion H; exists []; rewrite app_nil_r; reflexivity|].
+  destruct (event_step cf (s <| dr := d |>)) as [[u s1]| |]; try discriminate.
+  destruct (IH _ _ _ _ _ _ H) as [t ->]. exists (log s1 ++ t). rewrite app_assoc. reflexivity.
+Qed.
+Lemma Jrn2_dr cf an s h d : Jrn2 cf an s h -> Jrn2 cf an (s <| dr := d |>) h.
+Proof. apply Jrn2_same; reflexivity. Qed.
+
+Theorem run_hist_jrn2 cf : scope2 cf = true -> forall ds s h an s' h' an', Jrn2 cf an s h -> run_hist cf s h an ds = Ok (s', h', an') -> Jrn2 cf an' s' h'.
+Proof.
+  intros Hsc. induction ds as [|d r IH]; intros s h an s' h' an' HJ H; cbn [run_hist] in H; [injection H as <- <- <-; exact HJ|].
+  destruct (event_step cf (s <| dr := d |>)) as [[u s1]| |] eqn:E; try discriminate. destruct u.
+  eapply IH; [|exact H]. exact (event_step_jrn2 cf an _ s1 h Hsc (Jrn2_dr _ _ _ _ d HJ) E).
+Qed.
+(* the same for Codec2.run_many: the final state satisfies the invariant for the accumulated history *)
+Theorem run_many_jrn2 cf ds s h an s' : scope2 cf = true -> Jrn2 cf an s h -> run_many cf s ds = Ok s' ->
+  exists h' an', run_hist cf s h an ds = Ok (s', h', an') /\ Jrn2 cf an' s' h' /\ exists t, h' = h ++ t.
+Proof.
+  intros Hsc HJ H. destruct (run_many_hist cf ds s h an s' H) as (h' & an' & Hh). exists h', an'. split; [exact Hh|].
+  split; [eapply run_hist_jrn2; eauto|eapply run_hist_grows; eauto].
+Qed.
+Theorem engine_journey2 cf ds s h an s' h' an' : scope2 cf = true -> Jrn2 cf an s h -> run_hist cf s h an ds = Ok (s', h', an') ->
+  run_many cf s ds = Ok s' /\ (exists t, h' = h ++ t) /\ Jrn2 cf an' s' h'.
+Proof.
+  intros Hsc HJ H. split; [eapply run_hist_many; eauto|]. split; [eapply run_hist_grows; eauto|eapply run_hist_jrn2; eauto].
+Qed.
+
+(* ---------- in the words of the property ---------- *)
+Lemma closing_cont_excl r : closing r -> cont r -> False.
+Proof. unfold closing, cont. intros [H|[H|[_ H]]] [H1 H2]; congruence. Qed.
+(* the records of the present visit: after the last closing record only continuation records follow, all at node k with
+   arrival date a; the closing record names k and ends at a *)
+Lemma chain_visit k a : forall l2 r, chain (r :: l2) -> Forall cont l2 -> lastok k a (last_opt (r :: l2)) ->
+  (closing r -> r_dest r = Some k /\ r_exit r = a) /\ (cont r -> r_node r = k /\ r_arr r = a) /\
+  Forall (fun r' => r_node r' = k /\ r_arr r' = a) l2.
+Proof.
+  induction l2 as [|r2 l2 IH]; intros r Hc Hf Hl.
+  - cbn in Hl. split; [|split; [|constructor]].
+    + intros Hcl. destruct Hl as [(_ & A & B)|(A & _)]; [auto|exfalso; exact (closing_cont_excl r Hcl A)].
+    + intros Hco. destruct Hl as [(A & _)|(_ & A & B)]; [exfalso; exact (closing_cont_excl r A Hco)|auto].
+  - cbn [chain] in Hc. destruct Hc as [Hlk Hc]. inversion Hf as [|? ? Hc2 Hf2]. subst.
+    assert (Hl' : lastok k a (last_opt (r2 :: l2))).
+    { cbn [last_opt] in Hl |- *. destruct (last_opt l2); exact Hl. }
+    destruct (IH r2 Hc Hf2 Hl') as (_ & I2 & I3). destruct (I2 Hc2) as [N2 A2].
+    destruct Hlk as [_ [(Hcl & Hd & He)|(Hco & Hn & Ha)]].
+    + split; [intros _; split; congruence|]. split; [intros Hco; exfalso; exact (closing_cont_excl r Hcl Hco)|]. constructor; auto.
+    + split; [intros Hcl; exfalso; exact (closing_cont_excl r Hcl Hco)|]. split; [intros _; split; congruence|]. constructor; auto.
+Qed.
+
+Theorem Jrn2_means cf an s h : Jrn2 cf an s h ->
+  (* (0) the first record of a customer is at the node where it arrived *)
+  (forall i r l, recs_of i h = r :: l -> an i = Some (r_node r)) /\
+  (* (1) the records of one customer, in order, are one connected journey: a record r1 that has a successor r2 is a
+         service, interruption or renege record; if it closes its visit (service, renege, rerouting interruption) it names
+         the node of r2 as destination and ends when the visit of r2 began; if it is an interruption in the middle of
+         a visit, r2 belongs to the same visit: same node, same arrival date; r2 is not a baulk / rejection record *)
+  (forall i l1 r1 r2 l2, recs_of i h = l1 ++ r1 :: r2 :: l2 ->
+     visit r2 /\ ((closing r1 /\ r_dest r1 = Some (r_node r2) /\ r_exit r1 = r_arr r2) \/ (cont r1 /\ r_node r2 = r_node r1 /\ r_arr r2 = r_arr r1))) /\
+  (* (2) a baulk / rejection record is its customer's only record *)
+  (forall r, In r h -> ~ visit r -> recs_of (r_id r) h = [r]) /\
+  (* (3) a customer in node k+1 is recorded there and has as many records as its own counter says; it has no record yet
+         and k+1 is where it arrived, or its last record closed the previous visit naming k+1 and ending at the customer's
+         arrival date here, or its last record is an interruption of the present visit (node k+1, same arrival date) *)
+  (forall k nd i, nth_error (nodes s) k = Some nd -> In i (all_individuals nd) ->
+     exists x, find_ind i (inds s) = Some x /\ i_node x = Some (Z.of_nat k + 1) /\ i_nrec x = zlen (recs_of i h) /\
+       ((recs_of i h = [] /\ an i = Some (Z.of_nat k + 1)) \/
+        exists l r, recs_of i h = l ++ [r] /\
+          ((closing r /\ r_dest r = Some (Z.of_nat k + 1) /\ r_exit r = i_arr x) \/ (cont r /\ r_node r = Z.of_nat k + 1 /\ r_arr r = i_arr x))) /\
+       (* the last visit-closing record names k+1 and ends at the arrival date; the records after it are of this visit *)
+       (forall l1 r l2, recs_of i h = l1 ++ r :: l2 -> Forall cont l2 -> closing r ->
+          r_dest r = Some (Z.of_nat k + 1) /\ r_exit r = i_arr x /\ Forall (fun r' => r_node r' = Z.of_nat k + 1 /\ r_arr r' = i_arr x) l2) /\
+       (* no visit-closing record at all: every record is of this visit, and this is where the customer arrived *)
+       (Forall cont (recs_of i h) -> an i = Some (Z.of_nat k + 1) /\ Forall (fun r' => r_node r' = Z.of_nat k + 1 /\ r_arr r' = i_arr x) (recs_of i h))) /\
+  (* (4) a customer is at the exit exactly when its last record names destination -1 or is a baulk / rejection record *)
+  (forall i, 1 <= i <= a_created (arr s) ->
+     (In i (exit_ids s) <-> exists l r, recs_of i h = l ++ [r] /\ (r_dest r = Some (-1) \/ r_type r = 3 \/ r_type r = 4))) /\
+  (* (5) records only name customers that exist *)
+  (forall r, In r h -> r_id r <= a_created (arr s)).
+Proof.
+  intros (HW & [A B C F D] & _).
+  assert (P3 : forall k nd i, nth_error (nodes s) k = Some nd -> In i (all_individuals nd) ->
+     exists x, find_ind i (inds s) = Some x /\ good an (Z.of_nat k + 1) i x h).
+  { intros k nd i Hk Hin. apply (A (Z.of_nat k + 1) i). exists nd. split; [|exact Hin]. unfold nodeZ.
+    replace (Z.of_nat k + 1 - 1) with (Z.of_nat k) by lia. rewrite Conserve2.nthZ_of_nat. exact Hk. }
+  split; [exact F|]. split; [|split; [|split; [|split; [|exact D]]]].
+  - intros i l1 r1 r2 l2 E. pose proof (C i) as Hc. rewrite E in Hc. apply chain_mid in Hc. exact Hc.
+  - intros r Hr Hty. apply (chain_only _ r (C (r_id r))); [apply recs_of_In; auto|exact Hty].
+  - intros k nd i Hk Hin. destruct (P3 k nd i Hk Hin) as (x & Hx & Gn & Gl & Gc & Ga). exists x.
+    split; [exact Hx|]. split; [exact Gn|]. split; [exact Gc|]. split; [|split].
+    + unfold last_of in Gl. destruct (last_opt (recs_of i h)) as [r|] eqn:El.
+      * right. destruct (last_opt_split _ _ El) as [l Hl]. exists l, r. split; [exact Hl|exact Gl].
+      * left. apply last_opt_None in El. auto.
+    + intros l1 r l2 E Hf Hcl. pose proof (C i) as Hc. rewrite E in Hc.
+      assert (Hc' : chain (r :: l2)) by (clear -Hc; induction l1 as [|a t IH]; [exact Hc|apply IH; destruct Hc as [_ Hc]; exact Hc]).
+      assert (Hl' : lastok (Z.of_nat k + 1) (i_arr x) (last_opt (r :: l2))).
+      { unfold last_of in Gl. rewrite E in Gl. clear -Gl. induction l1 as [|a t IH]; [exact Gl|apply IH]. cbn [app last_opt] in Gl.
+        destruct (last_opt (t ++ r :: l2)) eqn:E0; [exact Gl|]. apply last_opt_None in E0. destruct t; discriminate E0. }
+      destruct (chain_visit _ _ l2 r Hc' Hf Hl') as (Q1 & _ & Q3). destruct (Q1 Hcl). auto.
+    + intros Hf. destruct (recs_of i h) as [|r l] eqn:E; [split; [exact (Ga eq_refl)|constructor]|].
+      inversion Hf as [|? ? Hcr Hfl]. subst. pose proof (C i) as Hc. rewrite E in Hc. unfold last_of in Gl. rewrite E in Gl.
+      destruct (chain_visit _ _ l r Hc Hfl Gl) as (_ & Q2 & Q3). destruct (Q2 Hcr) as [N1 A1].
+      split; [rewrite (F i r l E), N1; reflexivity|constructor; auto].
+  - intros i Hi. split.
+    + intros Hin. destruct (B i Hin) as (r & Hl & Ht). destruct (last_opt_split _ _ Hl) as [l El]. exists l, r. split; [exact El|].
+      destruct Ht as [[_ Hd]|[Ht|Ht]]; auto.
+    + intros (l & r & El & Hr).
+      destruct (Conserve2.WFx2_means _ HW) as (HP & _).
+      assert (Hin : In i (Conserve2.ids_of s)) by (eapply Permutation_in; [symmetry; exact HP|]; apply zseq_In; lia).
+      unfold Conserve2.ids_of in Hin. apply in_app_or in Hin as [Hin|Hin]; [exfalso|exact Hin].
+      unfold Conserve2.ids_in_nodes in Hin. apply in_concat in Hin as (q & Hq & Hiq). apply in_map_iff in Hq as (nd & <- & Hnd).
+      apply In_nth_error in Hnd as (k & Hk).
+      destruct (P3 k nd i Hk Hiq) as (x & _ & _ & Gl & _ & _). unfold last_of in Gl. rewrite El, last_opt_snoc in Gl.
+      destruct Gl as [(Hcl & Hd & _)|((Ht & Hd) & _)].
+      * destruct Hr as [Hr|[Hr|Hr]]; [rewrite Hr in Hd; injection Hd as Hd; lia| |]; destruct Hcl as [Hc|[Hc|[Hc _]]]; congruence.
+      * destruct Hr as [Hr|[Hr|Hr]]; congruence.
+Qed.
+
+(* ====================================================================================================================
+   10. An executable test of the invariant
+   ==================================================================================================================== *)
+Definition ozeqb (a b : option Z) : bool :=
+  match a, b with Some x, Some y => x =? y | None, None => true | _, _ => false end.
+Lemma ozeqb_eq a b : ozeqb a b = true -> a = b.
+Proof. destruct a, b; cbn; intros H; try discriminate; [apply Z.eqb_eq in H; congruence|reflexivity]. Qed.
+Definition isnone {A} (o : option A) : bool := match o with None => true | Some _ => false end.
+Lemma isnone_eq {A} (o : option A) : isnone o = true -> o = None.
+Proof. destruct o; [discriminate|reflexivity]. Qed.
+Fixpoint nodupZ (l : list Z) : bool := match l with [] => true | a :: r => negb (memZ a r) && nodupZ r end.
+Lemma nodupZ_sound l : nodupZ l = true -> NoDup l.
+Proof.
+  induction l as [|a r IH]; cbn; [constructor|]. intros H. apply andb_true_iff in H as [H1 H2]. constructor; [|apply IH; exact H2].
+  intros Hin. apply memZ_In in Hin. rewrite Hin in H1. discriminate H1.
+Qed.
+
+Definition closing_b (r : rec) : bool := (r_type r =? 0) || (r_type r =? 2) || ((r_type r =? 1) && negb (isnone (r_dest r))).
+Definition cont_b (r : rec) : bool := (r_type r =? 1) && isnone (r_dest r).
+Definition visit_b (r : rec) : bool := (r_type r =? 0) || (r_type r =? 1) || (r_type r =? 2).
+Definition link_b (r1 r2 : rec) : bool :=
+  visit_b r2 && ((closing_b r1 && ozeqb (r_dest r1) (Some (r_node r2)) && ozeqb (r_exit r1) (r_arr r2))
+                 || (cont_b r1 && (r_node r2 =? r_node r1) && ozeqb (r_arr r2) (r_arr r1))).
+Fixpoint chain_b (l : list rec) : bool :=
+  match l with [] => true | r1 :: t => match t with [] => true | r2 :: _ => link_b r1 r2 end && chain_b t end.
+Definition term_b (r : rec) : bool := (closing_b r && ozeqb (r_dest r) (Some (-1))) || (r_type r =? 3) || (r_type r =? 4).
+Definition lastok_b (k : Z) (a : option Z) (o : option rec) : bool :=
+  match o with
+  | None => true
+  | Some r => (closing_b r && ozeqb (r_dest r) (Some k) && ozeqb (r_exit r) a) || (cont_b r && (r_node r =? k) && ozeqb (r_arr r) a)
+  end.
+Definition first_b (an : Z -> option Z) (i : Z) (l : list rec) : bool :=
+  match l with r :: _ => ozeqb (an i) (Some (r_node r)) | [] => true end.
+Definition good_b (an : Z -> option Z) (k i : Z) (x : ind) (H : list rec) : bool :=
+  ozeqb (i_node x) (Some k) && lastok_b k (i_arr x) (last_of i H) && (i_nrec x =? zlen (recs_of i H))
+  && match recs_of i H with [] => ozeqb (an i) (Some k) | _ => true end.
+Definition jh_b (an : Z -> option Z) (s : sim) (H : list rec) : bool :=
+  forallb (fun nd => forallb (fun i => match find_ind i (inds s) with Some x => good_b an (n_id nd) i x H | None => false end)
+                             (all_individuals nd)) (nodes s)
+  && forallb (fun i => match last_of i H with Some r => term_b r | None => false end) (exit_ids s)
+  && forallb (fun r => chain_b (recs_of (r_id r) H)) H
+  && forallb (fun r => first_b an (r_id r) (recs_of (r_id r) H)) H
+  && forallb (fun r => r_id r <=? a_created (arr s)) H.
+Definition lq_b (s : sim) : bool :=
+  forallb (fun nd => forallb (fun p => match find_ind (snd p) (inds s) with
+                                       | Some x => ozeqb (i_dest x) (Some (n_id nd)) && i_blocked x
+                                       | None => false end) (n_bq nd)
+                     && nodupZ (map snd (n_bq nd))) (nodes s).
+Definition noint_b (s : sim) : bool := forallb (fun nd => n_nint nd <=? 0) (nodes s).
+Definition srvn_b (cf : config) (nd : node) : bool :=
+  nodupZ (map sv_id (n_servers nd)) && forallb (fun sv => sv_id sv <=? n_highest nd) (n_servers nd)
+  && (if nd_inf nd then match n_servers nd with [] => true | _ => false end else true)
+  && (if sched_of cf (n_id nd) then negb (nd_inf nd) else true).
+Definition own_b (cf : config) (s : sim) (nd : node) : bool :=
+  if slot_of cf (n_id nd) then true
+  else forallb (fun sv => match sv_cust sv with
+                          | None => true
+                          | Some c => match find_ind c (inds s) with
+                                      | Some x => ozeqb (i_server x) (Some (sv_id sv)) && ozeqb (i_node x) (Some (n_id nd))
+                                                  && (if isnone (sv_next_end sv) then true else negb (i_blocked x))
+                                      | None => false end
+                          end) (n_servers nd).
+Definition blk_b (cf : config) (s : sim) : bool :=
+  forallb (fun x => if i_blocked x && isnone (i_server x)
+                    then match i_node x with
+                         | Some k => match nodeZ s k with Some nd => nd_inf nd || slot_of cf k | None => false end
+                         | None => false end
+                    else true) (inds s).
+Definition pick_b (cf : config) (s : sim) : bool :=
+  forallb (fun nd => forallb (fun i => match find_ind i (inds s) with
+                                       | None => true
+                                       | Some x => (if n_next_type nd =? 0 then negb (i_blocked x) && ozeqb (i_node x) (Some (n_id nd)) else true)
+                                                   && (if n_next_type nd =? 2 then negb (i_blocked x) && isnone (i_server x) else true)
+                                       end) (n_next_inds nd)
+                     && (if n_next_type nd =? 3 then cf_dyn cf else true)) (nodes s).
+Definition nb_b (cf : config) (s : sim) : bool := if preempts cf then forallb (fun x => negb (i_blocked x)) (inds s) else true.
+Definition jrn2_b (cf : config) (an : Z -> option Z) (s : sim) (h : list rec) : bool :=
+  Conserve2.wfx2_b s && jh_b an s h && lq_b s && noint_b s && forallb (srvn_b cf) (nodes s) && forallb (own_b cf s) (nodes s)
+  && blk_b cf s && pick_b cf s && nb_b cf s.
+
+Lemma closing_b_sound r : closing_b r = true -> closing r.
+Proof.
+  unfold closing_b, closing. intros H. apply orb_true_iff in H as [H|H]; [apply orb_true_iff in H as [H|H]|].
+  - left. apply Z.eqb_eq. exact H.
+  - right. left. apply Z.eqb_eq. exact H.
+  - right. right. apply andb_true_iff in H as [H1 H2]. apply Z.eqb_eq in H1. split; [exact H1|]. destruct (r_dest r); [discriminate|discriminate H2].
+Qed.
+Lemma cont_b_sound r : cont_b r = true -> cont r.
+Proof. unfold cont_b, cont. intros H. apply andb_true_iff in H as [H1 H2]. apply Z.eqb_eq in H1. apply isnone_eq in H2. auto. Qed.
+Lemma visit_b_sound r : visit_b r = true -> visit r.
+Proof.
+  unfold visit_b, visit. intros H. apply orb_true_iff in H as [H|H]; [apply orb_true_iff in H as [H|H]|]; apply Z.eqb_eq in H; auto.
+Qed.
+Lemma lastok_b_sound k a o : lastok_b k a o = true -> lastok k a o.
+Proof.
+  destruct o as [r|]; cbn; [|auto]. intros H. apply orb_true_iff in H as [H|H]; apply andb_true_iff in H as [H H3]; apply andb_true_iff in H as [H1 H2].
+  - left. split; [apply closing_b_sound; exact H1|]. split; apply ozeqb_eq; assumption.
+  - right. split; [apply cont_b_sound; exact H1|]. split; [apply Z.eqb_eq; exact H2|apply ozeqb_eq; exact H3].
+Qed.
+Lemma term_b_sound r : term_b r = true -> term r.
+Proof.
+  unfold term_b, term. intros H. apply orb_true_iff in H as [H|H]; [apply orb_true_iff in H as [H|H]|].
+  - left. apply andb_true_iff in H as [H1 H2]. split; [apply closing_b_sound; exact H1|apply ozeqb_eq; exact H2].
+  - right. left. apply Z.eqb_eq. exact H.
+  - right. right. apply Z.eqb_eq. exact H.
+Qed.
+Lemma chain_b_sound l : chain_b l = true -> chain l.
+Proof.
+  induction l as [|a t IH]; cbn [chain_b chain]; [auto|]. intros H. apply andb_true_iff in H as [H1 H2]. split; [|auto].
+  destruct t as [|b t']; [exact I|]. unfold link_b in H1. unfold link. apply andb_true_iff in H1 as [V H1]. split; [apply visit_b_sound; exact V|].
+  apply orb_true_iff in H1 as [H1|H1]; apply andb_true_iff in H1 as [H1 E3]; apply andb_true_iff in H1 as [E1 E2].
+  - left. split; [apply closing_b_sound; exact E1|]. split; apply ozeqb_eq; assumption.
+  - right. split; [apply cont_b_sound; exact E1|]. split; [apply Z.eqb_eq; exact E2|apply ozeqb_eq; exact E3].
+Qed.
+
+Theorem jh_b_sound an s H : Idx s -> jh_b an s H = true -> JH an H s.
+Proof.
+  intros HI Hb. unfold jh_b in Hb.
+  apply andb_true_iff in Hb as [Hb B5]. apply andb_true_iff in Hb as [Hb B4]. apply andb_true_iff in Hb as [Hb B3]. apply andb_true_iff in Hb as [B1 B2].
+  rewrite forallb_forall in B1, B2, B3, B4, B5. constructor.
+  - intros k i (nd & Hn & Hin). pose proof (B1 nd (nthZ_In _ _ _ Hn)) as E. rewrite forallb_forall in E. specialize (E i Hin).
+    destruct (find_ind i (inds s)) as [x|]; [|discriminate]. exists x. split; [reflexivity|].
+    rewrite (HI _ _ Hn) in E. unfold good_b in E.
+    apply andb_true_iff in E as [E E4]. apply andb_true_iff in E as [E E3]. apply andb_true_iff in E as [E1 E2].
+    split; [apply ozeqb_eq; exact E1|]. split; [apply lastok_b_sound; exact E2|]. split; [apply Z.eqb_eq; exact E3|].
+    intros E0. rewrite E0 in E4. apply ozeqb_eq. exact E4.
+  - intros i Hi. specialize (B2 i Hi). destruct (last_of i H) as [r|]; [|discriminate]. exists r. split; [reflexivity|apply term_b_sound; exact B2].
+  - intros i. destruct (recs_of i H) as [|r t] eqn:E; [exact I|].
+    assert (Hin : In r (recs_of i H)) by (rewrite E; left; reflexivity). apply recs_of_In in Hin as [Hin Hid].
+    rewrite <- E, <- Hid. apply chain_b_sound. exact (B3 r Hin).
+  - intros i r l E. assert (Hin : In r (recs_of i H)) by (rewrite E; left; reflexivity). apply recs_of_In in Hin as [Hin Hid].
+    specialize (B4 r Hin). rewrite Hid, E in B4. cbn in B4. apply ozeqb_eq. exact B4.
+  - intros r Hr. apply Z.leb_le. exact (B5 r Hr).
+Qed.
+
+Theorem jrn2_b_sound cf an s h : jrn2_b cf an s h = true -> Jrn2 cf an s h.
+Proof.
+  unfold jrn2_b. intros H. apply andb_true_iff in H as [H B9].
+  apply andb_true_iff in H as [H B8]. apply andb_true_iff in H as [H B7]. apply andb_true_iff in H as [H B6]. apply andb_true_iff in H as [H B5].
+  apply andb_true_iff in H as [H B4]. apply andb_true_iff in H as [H B3]. apply andb_true_iff in H as [B1 B2].
+  pose proof (Conserve2.wfx2_b_sound s B1) as HW. pose proof (WFx2_Idx _ _ HW) as HI.
+  unfold lq_b in B3. unfold noint_b in B4. unfold blk_b in B7. unfold pick_b in B8. rewrite forallb_forall in B3, B4, B5, B6, B7, B8.
+  split; [exact HW|]. split; [apply jh_b_sound; assumption|]. split; [|split; [|split]].
+  - constructor.
+    + intros d fr y (nd & Hn & Hin). specialize (B3 nd (nthZ_In _ _ _ Hn)). apply andb_true_iff in B3 as [B3 _]. rewrite forallb_forall in B3.
+      specialize (B3 (fr, y) Hin). cbn in B3. destruct (find_ind y (inds s)) as [x|]; [|discriminate]. apply andb_true_iff in B3 as [E1 E2].
+      exists x. rewrite (HI _ _ Hn) in E1. split; [reflexivity|]. split; [apply ozeqb_eq; exact E1|exact E2].
+    + intros d nd Hn. specialize (B3 nd (nthZ_In _ _ _ Hn)). apply andb_true_iff in B3 as [_ B3]. apply nodupZ_sound. exact B3.
+  - intros k nd Hn. apply Z.leb_le. exact (B4 nd (nthZ_In _ _ _ Hn)).
+  - constructor.
+    + intros j nd Hn. specialize (B5 nd (nthZ_In _ _ _ Hn)). unfold srvn_b in B5. rewrite (HI _ _ Hn) in B5.
+      apply andb_true_iff in B5 as [B5 E4]. apply andb_true_iff in B5 as [B5 E3]. apply andb_true_iff in B5 as [E1 E2]. constructor.
+      * apply nodupZ_sound. exact E1.
+      * intros sv Hsv. rewrite forallb_forall in E2. apply Z.leb_le. exact (E2 sv Hsv).
+      * intros Hi. rewrite Hi in E3. destruct (n_servers nd); [reflexivity|discriminate E3].
+      * intros Hs. rewrite Hs in E4. apply negb_true_iff in E4. exact E4.
+    + intros j nd sv c Hn Hsl Hin Hc. specialize (B6 nd (nthZ_In _ _ _ Hn)). unfold own_b in B6. rewrite (HI _ _ Hn), Hsl in B6.
+      rewrite forallb_forall in B6. specialize (B6 sv Hin). rewrite Hc in B6. destruct (find_ind c (inds s)) as [x|]; [|discriminate].
+      apply andb_true_iff in B6 as [B6 E3]. apply andb_true_iff in B6 as [E1 E2]. exists x. split; [reflexivity|].
+      split; [apply ozeqb_eq; exact E1|]. split; [apply ozeqb_eq; exact E2|]. intros Hne. destruct (sv_next_end sv); [|congruence].
+      cbn in E3. apply negb_true_iff in E3. exact E3.
+    + intros i x Hf _ Hb Hs. specialize (B7 x (find_ind_In _ _ _ Hf)). rewrite Hb, Hs in B7. cbn in B7.
+      destruct (i_node x) as [k|]; [|discriminate]. destruct (nodeZ s k) as [nd|] eqn:En; [|discriminate]. exists k, nd.
+      split; [reflexivity|]. split; [exact En|]. apply orb_true_iff in B7. exact B7.
+    + intros Hp i x Hf. unfold nb_b in B9. rewrite Hp in B9. rewrite forallb_forall in B9. specialize (B9 x (find_ind_In _ _ _ Hf)). apply negb_true_iff in B9. exact B9.
+  - intros j nd Hn. specialize (B8 nd (nthZ_In _ _ _ Hn)). apply andb_true_iff in B8 as [B8 B8'].
+    split; [|intros Ht; rewrite Ht in B8'; exact B8'].
+    intros i x Hi Hx. rewrite forallb_forall in B8. specialize (B8 i Hi). rewrite Hx, (HI _ _ Hn) in B8.
+    apply andb_true_iff in B8 as [E1 E2]. split.
+    + intros Ht. rewrite Ht in E1. cbn in E1. apply andb_true_iff in E1 as [F1 F2]. apply negb_true_iff in F1. split; [exact F1|apply ozeqb_eq; exact F2].
+    + intros Ht. rewrite Ht in E2. cbn in E2. apply andb_true_iff in E2 as [F1 F2]. apply negb_true_iff in F1. split; [exact F1|apply isnone_eq; exact F2].
+Qed.
+
+(* ====================================================================================================================
+   11. Non-vacuity: a two-node network in scope.  Customers arrive at node 1 every 2 ticks, renege there after 7 ticks
+   and jockey to node 2; node 1 routes to node 2, which holds one customer (the next one is blocked at node 1); node 2
+   routes to the exit.  Services take 5 ticks.
+   ==================================================================================================================== *)
+Definition jx_cf : config :=
+  mkCfg 2
+    [ mkNcfg None None 0 SFixed 0 true [true] 0;
+      mkNcfg (Some 1) None 0 SFixed 0 false [false] 0 ]
+    [0] 1 None
+    [ RtNR [RJockey 2 2; RLeave] ]
+    [ [None; None] ] false [ [false] ].
+Definition jx_srv : server := mkServer 1 None false None 0 None 0 false 0 None.
+Definition jx_node (j : Z) : node :=
+  mkNode j 0 0 [[]] [jx_srv] [] 0 None [] (Some 1) 1 [] 0 [] [] [] 0 None 0 None None.
+Definition jx_s0 : sim :=
+  mkSim 1 0 (mkArr 0 0 [[Some 1]; [None]] 1 0 (Some 1)) [jx_node 1; jx_node 2] [] 0 0 []
+        (mkDraws [] [] [] [] [] []) [] [[0; 0]].
+Definition jx_d : draws := mkDraws [2] [1] [5; 5] [0; 0] [7; 7] [].
+Definition jx_an0 : Z -> option Z := fun _ => None.
+Definition jx_view (r : rec) := (r_id r, r_node r, r_type r, r_arr r, r_exit r, r_dest r).
+
+Example jx_scope : scope2 jx_cf = true. Proof. vm_compute. reflexivity. Qed.
+Example jx_scopeA : scopeA jx_cf = true. Proof. vm_compute. reflexivity. Qed.
+Example jx_start : jrn2_b jx_cf jx_an0 jx_s0 [] = true. Proof. vm_compute. reflexivity. Qed.
+Example jx_Jrn2 : Jrn2 jx_cf jx_an0 jx_s0 []. Proof. apply jrn2_b_sound. vm_compute. reflexivity. Qed.
+(* 20 events later: customer 1 has visited node 1 and node 2 and is at the exit; customer 2 was blocked at node 1 from 8 to
+   11 (its record at node 1 ends when its visit at node 2 begins); customers 4 - 7 have reneged at node 1 and jockeyed to
+   node 2 (records of type 2 naming node 2, each ending when the visit at node 2 begins); customer 3 is blocked at node 1 *)
+Example jx_run : exists s h an, run_hist jx_cf jx_s0 [] jx_an0 (repeat jx_d 20) = Ok (s, h, an) /\
+  map jx_view h = [(1, 1, 0, Some 1, Some 6, Some 2); (1, 2, 0, Some 6, Some 11, Some (-1)); (2, 1, 0, Some 3, Some 11, Some 2);
+                   (4, 1, 2, Some 7, Some 14, Some 2); (5, 1, 2, Some 9, Some 16, Some 2); (2, 2, 0, Some 11, Some 16, Some (-1));
+                   (6, 1, 2, Some 11, Some 18, Some 2); (7, 1, 2, Some 13, Some 20, Some 2)] /\
+  map all_individuals (nodes s) = [[3; 8; 9; 10; 11]; [4; 5; 6; 7]] /\ map n_bq (nodes s) = [[]; [(1, 3)]] /\ exit_ids s = [1; 2] /\
+  map an [1; 4; 11] = [Some 1; Some 1; Some 1] /\
+  jrn2_b jx_cf an s h = true.
+Proof. eexists. eexists. eexists. split; [vm_compute; reflexivity|]. vm_compute. auto 7. Qed.
+(* the same state satisfies the invariant by the theorem (not by computation) *)
+Example jx_thm : forall s h an, run_hist jx_cf jx_s0 [] jx_an0 (repeat jx_d 20) = Ok (s, h, an) -> Jrn2 jx_cf an s h.
+Proof. intros s h an H. exact (run_hist_jrn2 jx_cf jx_scope _ _ _ _ _ _ _ jx_Jrn2 H). Qed.
+
+(* A second network in scope, with priority pre-emption (no capacities): the network of Conserve2.v.  Class 0 has priority over
+   class 1; node 1 pre-empts (resume) and class 0 reneges there and jockeys to node 2.  Customer 1 (class 1) is pre-empted at
+   t = 2 by customer 2: an interruption record (type 1, no destination) in the middle of its visit - it is still in node 1 *)
+Example jp_scope : scope2 Conserve2.ex_cf = true /\ scopeA Conserve2.ex_cf = false. Proof. vm_compute. auto. Qed.
+Example jp_Jrn2 : Jrn2 Conserve2.ex_cf jx_an0 Conserve2.ex_s0 []. Proof. apply jrn2_b_sound. vm_compute. reflexivity. Qed.
+Example jp_run : exists s h an, run_hist Conserve2.ex_cf Conserve2.ex_s0 [] jx_an0 (repeat Conserve2.ex_d 24) = Ok (s, h, an) /\
+  map jx_view h = [(1, 1, 1, Some 1, Some 2, None); (4, 1, 2, Some 7, Some 10, Some 2); (2, 1, 0, Some 2, Some 12, Some 2);
+                   (8, 1, 2, Some 17, Some 20, Some 2); (4, 2, 0, Some 10, Some 20, Some (-1)); (6, 1, 0, Some 12, Some 22, Some 2);
+                   (12, 1, 2, Some 27, Some 30, Some 2); (2, 2, 0, Some 12, Some 30, Some (-1)); (10, 1, 0, Some 22, Some 32, Some 2)] /\
+  map all_individuals (nodes s) = [[14; 16; 1; 3; 5; 7; 9; 11; 13; 15]; [8; 6; 12; 10]] /\ exit_ids s = [4; 2] /\
+  jrn2_b Conserve2.ex_cf an s h = true.
+Proof. eexists. eexists. eexists. split; [vm_compute; reflexivity|]. vm_compute. auto 7. Qed.
+Example jp_thm : forall s h an, run_hist Conserve2.ex_cf Conserve2.ex_s0 [] jx_an0 (repeat Conserve2.ex_d 24) = Ok (s, h, an) -> Jrn2 Conserve2.ex_cf an s h.
+Proof. intros s h an H. exact (run_hist_jrn2 Conserve2.ex_cf (proj1 jp_scope) _ _ _ _ _ _ _ jp_Jrn2 H). Qed.
+
+(* ====================================================================================================================
+   12. Outside the scope the statement is FALSE of the model: priority pre-emption of a BLOCKED customer (region F-02a).
+   Three nodes; node 1 pre-empts (resume), nodes 2 and 3 hold one customer each.  Customer 1 occupies node 2.  Customer 2
+   (low priority) finishes at node 1, is routed to node 2 and blocked; customer 3 (high priority) arrives, pre-empts the
+   blocked customer 2, is served and leaves for node 3; customer 2 resumes with a NEGATIVE remaining time, the clock goes
+   back from 8 to 7, it finishes "again", is now routed to node 3 and blocked a second time: it sits in the blocked queues of
+   node 2 AND node 3.  When node 2 lets it in (t = 102), its service record at node 1 names node 3 - but the customer is in
+   node 2, and its next record is at node 2.  Nothing crashes for nine events (the tenth does).
+   ==================================================================================================================== *)
+Definition rf_cf : config :=
+  mkCfg 3
+    [ mkNcfg None None 0 SFixed 1 false [false; false] 0;
+      mkNcfg (Some 1) None 0 SFixed 0 false [false; false] 0;
+      mkNcfg (Some 1) None 0 SFixed 0 false [false; false] 0 ]
+    [0; 1] 2 None
+    [ RtNR [RDirect 3; RLeave; RLeave]; RtNR [RCycle [2; 2; 3]; RLeave; RLeave] ]
+    [ [None; None; None]; [None; None; None] ] false [ [false; false]; [false; false] ].
+Definition rf_srv : server := mkServer 1 None false None 0 None 0 false 0 None.
+Definition rf_node (j : Z) : node :=
+  mkNode j 0 0 [[]; []] [rf_srv] [] 0 None [] (Some 1) 1 [] 0 [] [] [] 0 None 0 None None.
+(* arrivals at node 1: class 1 (low priority) at 1 and 3, class 0 (high priority) at 6 *)
+Definition rf_s0 : sim :=
+  mkSim 1 0 (mkArr 0 0 [[Some 6; Some 1]; [None; None]; [None; None]] 1 1 (Some 1)) [rf_node 1; rf_node 2; rf_node 3] [] 0 0 []
+        (mkDraws [] [] [] [] [] []) [] [[0; 0; 0]; [0; 0; 0]].
+Definition rf_d (a sv : list Z) : draws := mkDraws a [1] sv [0; 0; 0] [] [].
+Definition rf_ds : list draws :=
+  [ rf_d [2] [1];        (* t = 1   customer 1 arrives (class 1), service 1 *)
+    rf_d [] [100];       (* t = 2   customer 1 moves to node 2, service 100 *)
+    rf_d [1000] [2];     (* t = 3   customer 2 arrives (class 1), service 2 *)
+    rf_d [] [];          (* t = 5   customer 2 finishes, routed to node 2: full, blocked *)
+    rf_d [1000] [2];     (* t = 6   customer 3 arrives (class 0) and pre-empts the blocked customer 2 *)
+    rf_d [] [200];       (* t = 8   customer 3 moves to node 3 (service 200); customer 2 resumes: time left 5 - 6 = -1 *)
+    rf_d [] [];          (* t = 7 ! customer 2 finishes again, routed to node 3: full, blocked a second time *)
+    rf_d [] [50; 50];    (* t = 102 customer 1 leaves node 2, which lets customer 2 in *)
+    rf_d [] [50] ].      (* t = 152 customer 2 leaves node 2 *)
+
+Theorem journey_refuted_preempt_blocked :
+  exists s9 h9 an9,
+    (* the initial state satisfies the invariant; the configuration is outside the scope only by its pre-emption option *)
+    jrn2_b rf_cf (fun _ => None) rf_s0 [] = true /\ scope2 rf_cf = false /\
+    run_hist rf_cf rf_s0 [] (fun _ => None) rf_ds = Ok (s9, h9, an9) /\ Conserve2.wfx2_b s9 = true /\
+    (* customer 2: a service record at node 1 naming node 3, directly followed by a record at node 2 *)
+    (* (id, node, type, arrival, exit, destination) *)
+    map jx_view (recs_of 2 h9) = [(2, 1, 1, Some 3, Some 6, None); (2, 1, 0, Some 3, Some 102, Some 3); (2, 2, 0, Some 102, Some 152, Some (-1))] /\
+    (* hence no journey invariant, whatever the ghost *)
+    (forall an, ~ JH an h9 s9).
+Proof.
+  eexists. eexists. eexists. split; [vm_compute; reflexivity|]. split; [vm_compute; reflexivity|]. split; [vm_compute; reflexivity|].
+  split; [vm_compute; reflexivity|]. split; [vm_compute; reflexivity|].
+  intros an HJ. pose proof (j_chain _ _ _ HJ 2) as Hc.
+    match type of Hc with chain ?l => let l' := eval vm_compute in l in change (chain l') in Hc end.
+    cbn [chain] in Hc. destruct Hc as (_ & Hl & _). destruct Hl as [_ [(_ & Hd & _)|((Ht & _) & _)]]; [|vm_compute in Ht; discriminate Ht].
+    vm_compute in Hd. discriminate Hd.
+Qed.
+
+(* the same theorems under the name the framework uses for statements proved in a scope that leaves out regions which are
+   neither proved nor refuted (see the header: rerouting pre-emption; pre-emptive schedules / slots without blocking; priority
+   pre-emption with class change while waiting; reneging or pre-emption at a slotted node) *)
+Theorem event_step_jrn2_partial cf an s s' h : scope2 cf = true -> Jrn2 cf an s h -> event_step cf s = Ok (tt, s') ->
+  Jrn2 cf (an_step s an) s' (h ++ log s').
+Proof. apply event_step_jrn2. Qed.
+Theorem run_many_jrn2_partial cf ds s h an s' : scope2 cf = true -> Jrn2 cf an s h -> run_many cf s ds = Ok s' ->
+  exists h' an', run_hist cf s h an ds = Ok (s', h', an') /\ Jrn2 cf an' s' h' /\ exists t, h' = h ++ t.
+Proof. apply run_many_jrn2. Qed.
+
+Print Assumptions event_step_jrn2.
+Print Assumptions run_hist_jrn2.
+Print Assumptions run_many_jrn2.
+Print Assumptions engine_journey2.
+Print Assumptions Jrn2_means.
+Print Assumptions jrn2_b_sound.
+Print Assumptions jx_run.
+Print Assumptions jx_thm.
+Print Assumptions jp_run.
+Print Assumptions jp_thm.
+Print Assumptions journey_refuted_preempt_blocked.
+Print Assumptions event_step_jrn2_partial.
+Print Assumptions run_many_jrn2_partial.
